@@ -4,6 +4,9 @@ change of acceptance (gate chains); gate chains and the notification dispatch.
 -/
 import SimProc.Proofs.C03WDefs
 import SimProc.Proofs.C05Lemmas
+import SimProc.Props.C11
+import SimProc.Proofs.C10Lemmas
+import SimProc.Proofs.C03XSame
 
 namespace SimProc
 namespace C03W
@@ -11,84 +14,161 @@ open World FloorCoreL C03
 
 /-! ### monotonicity / congruence of `wouldAcceptN` -/
 
-theorem wouldAcceptN_mono {w w' : World} {N N' : List Nat} {p : Nat}
-    (hk : ∀ z, (w'.dev z).kind = (w.dev z).kind ∧ (w'.dev z).pred = (w.dev z).pred ∧
-      (w'.dev z).down = (w.dev z).down)
+/-- the static data the acceptance predicates read of a world: kinds, predicates, wiring, groups -/
+structure TopoEq (w w' : World) : Prop where
+  kind : ∀ z, (w'.dev z).kind = (w.dev z).kind
+  pred : ∀ z, (w'.dev z).pred = (w.dev z).pred
+  down : ∀ z, (w'.dev z).down = (w.dev z).down
+  group : ∀ z, (w'.dev z).group = (w.dev z).group
+  groups : w'.groups = w.groups
+
+theorem TopoEq.refl (w : World) : TopoEq w w := ⟨fun _ => rfl, fun _ => rfl, fun _ => rfl, fun _ => rfl, rfl⟩
+
+theorem TopoEq.symm {w w' : World} (h : TopoEq w w') : TopoEq w' w :=
+  ⟨fun z => (h.kind z).symm, fun z => (h.pred z).symm, fun z => (h.down z).symm,
+    fun z => (h.group z).symm, h.groups.symm⟩
+
+theorem TopoEq.groupIn {w w' : World} (h : TopoEq w w') (x : Nat) : groupIn w' x = groupIn w x := by
+  unfold C03W.groupIn; rw [h.group, h.groups]
+
+theorem TopoEq.groupOut {w w' : World} (h : TopoEq w w') (x : Nat) : groupOut w' x = groupOut w x := by
+  unfold C03W.groupOut; rw [h.group, h.groups]
+
+theorem TopoEq.of_sw {w w' : World} (e : sw w' = sw w) : TopoEq w w' :=
+  ⟨sw_kind e, sw_pred e, sw_down e, sw_group e, sw_groups e⟩
+
+theorem TopoEq.of_devs {w w' : World} (hd : w'.devs = w.devs) (hg : w'.groups = w.groups) :
+    TopoEq w w' := by
+  have h : ∀ z, w'.dev z = w.dev z := fun z => dev_congr hd z
+  exact ⟨fun z => by rw [h], fun z => by rw [h], fun z => by rw [h], fun z => by rw [h], hg⟩
+
+theorem wouldAcceptS_mono {w w' : World} {N N' A A' : List Nat} {p : Nat}
+    (hk : TopoEq w w')
     (hg : ∀ pr, w'.gatePred pr p = w.gatePred pr p)
-    (hc : ∀ z, z ∉ N' → w'.canAcceptBasic z p = true → z ∉ N ∧ w.canAcceptBasic z p = true) :
-    ∀ f y, wouldAcceptN f w' N' y p = true → wouldAcceptN f w N y p = true := by
+    (hc : ∀ z, z ∉ N' → (A'.contains z || accM w' z p) = true →
+      z ∉ N ∧ (A.contains z || accM w z p) = true) :
+    ∀ f y stk, wouldAcceptS f w' N' A' y p stk = true → wouldAcceptS f w N A y p stk = true := by
   intro f
   induction f with
-  | zero => intro y h; cases h
+  | zero => intro y stk h; cases h
   | succ f ih =>
-    intro y h
-    unfold wouldAcceptN at h ⊢
-    by_cases hy : y ∈ N'
-    · simp [hy] at h
-    · have hy' : N'.contains y = false := by simpa using hy
-      rw [hy'] at h
-      simp only [Bool.false_eq_true, if_false] at h
-      rw [(hk y).1, (hk y).2.1, (hk y).2.2, hg] at h
-      cases hkind : (w.dev y).kind <;> simp only [hkind] at h ⊢
-      case gate =>
-        simp only [Bool.and_eq_true, List.any_eq_true] at h
+    intro y stk h
+    unfold wouldAcceptS at h ⊢
+    rw [hk.kind y, hk.pred y, hk.down y, hg, hk.groupIn] at h
+    by_cases hgo : (w.dev y).kind = .goutput
+    · -- a group output is never masked
+      simp only [hgo, bne_self_eq_false, Bool.and_false, Bool.false_eq_true, if_false] at h ⊢
+      cases hl : stk.getLast? with
+      | none => simp [hl] at h
+      | some g =>
+        simp only [hl, Bool.and_eq_true, List.any_eq_true, beq_iff_eq] at h ⊢
         obtain ⟨⟨h1, h2⟩, z, hz, h3⟩ := h
-        obtain ⟨hn, hc2⟩ := hc y hy h2
-        have hn' : N.contains y = false := by simpa using hn
-        simp only [hn', Bool.false_eq_true, if_false, Bool.and_eq_true, List.any_eq_true]
-        exact ⟨⟨h1, hc2⟩, z, hz, ih z h3⟩
-      all_goals first
-        | (cases h; done)
-        | (obtain ⟨hn, hc2⟩ := hc y hy h
-           have hn' : N.contains y = false := by simpa using hn
-           simp only [hn', Bool.false_eq_true, if_false]
-           exact hc2)
+        rw [hk.kind g, hk.groupOut g, hk.down g] at *
+        exact ⟨⟨h1, h2⟩, z, hz, ih z _ h3⟩
+    · have hne : ((w.dev y).kind != Kind.goutput) = true := by simpa using hgo
+      rw [hne, Bool.and_true] at h ⊢
+      by_cases hy : y ∈ N'
+      · simp [hy] at h
+      · have hy' : N'.contains y = false := by simpa using hy
+        rw [hy'] at h
+        simp only [Bool.false_eq_true, if_false] at h
+        cases hkind : (w.dev y).kind <;> simp only [hkind] at h ⊢
+        case gate =>
+          simp only [Bool.and_eq_true, List.any_eq_true] at h
+          obtain ⟨⟨h1, h2⟩, z, hz, h3⟩ := h
+          obtain ⟨hn, hc2⟩ := hc y hy h2
+          have hn' : N.contains y = false := by simpa using hn
+          simp only [hn', Bool.false_eq_true, if_false, Bool.and_eq_true, List.any_eq_true]
+          exact ⟨⟨h1, hc2⟩, z, hz, ih z stk h3⟩
+        case ginput =>
+          simp only [Bool.and_eq_true, List.any_eq_true] at h
+          obtain ⟨h2, z, hz, h3⟩ := h
+          obtain ⟨hn, hc2⟩ := hc y hy h2
+          have hn' : N.contains y = false := by simpa using hn
+          simp only [hn', Bool.false_eq_true, if_false, Bool.and_eq_true, List.any_eq_true]
+          exact ⟨hc2, z, hz, ih z stk h3⟩
+        case gpath =>
+          simp only [Bool.and_eq_true] at h
+          obtain ⟨hn, hc2⟩ := hc y hy h.1
+          have hn' : N.contains y = false := by simpa using hn
+          simp only [hn', Bool.false_eq_true, if_false, Bool.and_eq_true]
+          exact ⟨hc2, ih _ _ h.2⟩
+        case goutput => exact absurd hkind hgo
+        all_goals first
+          | (cases h; done)
+          | (obtain ⟨hn, hc2⟩ := hc y hy h
+             have hn' : N.contains y = false := by simpa using hn
+             simp only [hn', Bool.false_eq_true, if_false]
+             exact hc2)
+
+theorem wouldAcceptN_mono {w w' : World} {N N' A A' : List Nat} {p : Nat}
+    (hk : TopoEq w w')
+    (hg : ∀ pr, w'.gatePred pr p = w.gatePred pr p)
+    (hs : (w'.part p).stack = (w.part p).stack)
+    (hc : ∀ z, z ∉ N' → (A'.contains z || accM w' z p) = true →
+      z ∉ N ∧ (A.contains z || accM w z p) = true) (f y : Nat) :
+    wouldAcceptN f w' N' A' y p = true → wouldAcceptN f w N A y p = true := by
+  unfold wouldAcceptN
+  rw [hs]
+  exact wouldAcceptS_mono hk hg hc f y _
 
 /-- same devices (as far as acceptance is concerned) and same part ⇒ same answer -/
-theorem wouldAcceptN_congr {w w' : World} {N : List Nat} {p : Nat}
-    (hk : ∀ z, (w'.dev z).kind = (w.dev z).kind ∧ (w'.dev z).pred = (w.dev z).pred ∧
-      (w'.dev z).down = (w.dev z).down)
+theorem wouldAcceptN_congr {w w' : World} {N A : List Nat} {p : Nat}
+    (hk : TopoEq w w')
     (hg : ∀ pr, w'.gatePred pr p = w.gatePred pr p)
-    (hc : ∀ z, w'.canAcceptBasic z p = w.canAcceptBasic z p) (f y : Nat) :
-    wouldAcceptN f w' N y p = wouldAcceptN f w N y p := by
+    (hs : (w'.part p).stack = (w.part p).stack)
+    (hc : ∀ z, accM w' z p = accM w z p) (f y : Nat) :
+    wouldAcceptN f w' N A y p = wouldAcceptN f w N A y p := by
   apply Bool.eq_iff_iff.mpr
   constructor
-  · exact wouldAcceptN_mono hk hg (fun z hz h => ⟨hz, by rw [← hc]; exact h⟩) f y
-  · exact wouldAcceptN_mono (fun z => ⟨(hk z).1.symm, (hk z).2.1.symm, (hk z).2.2.symm⟩)
-      (fun pr => (hg pr).symm) (fun z hz h => ⟨hz, by rw [hc]; exact h⟩) f y
+  · exact wouldAcceptN_mono hk hg hs (fun z hz h => ⟨hz, by rw [← hc]; exact h⟩) f y
+  · exact wouldAcceptN_mono hk.symm (fun pr => (hg pr).symm) hs.symm
+      (fun z hz h => ⟨hz, by rw [hc]; exact h⟩) f y
 
-theorem wouldAcceptN_mask {w : World} {N N' : List Nat} {p : Nat} (h : ∀ z ∈ N, z ∈ N') (f y : Nat) :
-    wouldAcceptN f w N' y p = true → wouldAcceptN f w N y p = true :=
-  wouldAcceptN_mono (fun _ => ⟨rfl, rfl, rfl⟩) (fun _ => rfl)
-    (fun z hz hc => ⟨fun hn => hz (h z hn), hc⟩) f y
+theorem contains_mono {A A' : List Nat} (hA : ∀ z ∈ A', z ∈ A) (z : Nat) (b : Bool)
+    (h : (A'.contains z || b) = true) : (A.contains z || b) = true := by
+  rw [Bool.or_eq_true] at h ⊢
+  rcases h with h | h
+  · left
+    have : z ∈ A' := by simpa using h
+    simpa using hA z this
+  · exact Or.inr h
 
-theorem wouldAcceptN_le_wouldAccept {w : World} {N : List Nat} {p : Nat} (f y : Nat)
-    (h : wouldAccept f w y p = false) : wouldAcceptN f w N y p = false := by
-  cases hh : wouldAcceptN f w N y p with
+theorem wouldAcceptN_mask {w : World} {N N' A A' : List Nat} {p : Nat} (h : ∀ z ∈ N, z ∈ N')
+    (hA : ∀ z ∈ A', z ∈ A) (f y : Nat) :
+    wouldAcceptN f w N' A' y p = true → wouldAcceptN f w N A y p = true :=
+  wouldAcceptN_mono (.refl w) (fun _ => rfl) rfl
+    (fun z hz hc => ⟨fun hn => hz (h z hn), contains_mono hA z _ hc⟩) f y
+
+theorem wouldAcceptN_of_nil {w : World} {N A : List Nat} {p : Nat} (f y : Nat)
+    (h : wouldAcceptN f w [] A y p = false) : wouldAcceptN f w N A y p = false := by
+  cases hh : wouldAcceptN f w N A y p with
   | false => rfl
   | true =>
-    have := wouldAcceptN_mask (N := []) (N' := N) (w := w) (p := p) (fun _ h => by cases h) f y hh
-    rw [wouldAcceptN_nil, h] at this; cases this
+    have := wouldAcceptN_mask (N := []) (N' := N) (A := A) (A' := A) (w := w) (p := p)
+      (fun _ h => by cases h) (fun _ h => h) f y hh
+    rw [h] at this; cases this
 
-theorem G.mono {E N E' N' : List Nat} {w : World} (h : G E N w) (hE : ∀ x ∈ E, x ∈ E')
-    (hN : ∀ x ∈ N, x ∈ N') : G E' N' w := by
-  refine ⟨h.s1, h.inv, h.now0, h.ev, h.valid, ?_⟩
+theorem G.mono {E N A E' N' A' : List Nat} {w : World} (h : G E N A w) (hE : ∀ x ∈ E, x ∈ E')
+    (hN : ∀ x ∈ N, x ∈ N') (hA : ∀ x ∈ A', x ∈ A) : G E' N' A' w := by
+  refine ⟨h.sc, h.pl, h.inv, h.now0, h.ev, h.valid, h.kv, h.stk, h.wr, fun x hx => h.aok x (hA x hx), ?_⟩
   intro d p hd hdE
   rcases h.wake d p hd (fun hc => hdE (hE d hc)) with ha | hb
   · exact Or.inl ha
   · refine Or.inr ⟨hb.1, fun y hy => ?_⟩
-    cases hh : wouldAcceptN w.fuel w N' y p with
+    cases hh : wouldAcceptN w.fuel w N' A' y p with
     | false => rfl
     | true =>
-      have := wouldAcceptN_mask hN _ _ hh
+      have := wouldAcceptN_mask hN hA _ _ hh
       rw [hb.2 y hy] at this; cases this
 
-/-! ### `give` answers `wouldAccept` -/
+/-! ### the frame of a refusal -/
 
-/-- only kinds of S1, no resource requirements (a property of the frame of a refusal) -/
-def KOK (w : World) : Prop := ∀ x, kindOK (w.dev x).kind = true ∧ (w.dev x).resReq = none
+/-- only kinds of the scope; declared requirements have no negative amount (a property of the frame
+of a refusal) -/
+def KOK (w : World) : Prop := ∀ x, kindOK (w.dev x).kind = true ∧ reqNN (w.dev x)
 
-theorem S1.kok {w : World} (h : S1 w) : KOK w := fun x => ⟨h.kindOK x, h.resReq x⟩
+theorem SC.kok {w : World} (h : SC w) : KOK w := fun x => ⟨h.kindOK x, (h.devOK x).2.1⟩
 
 theorem refused_dev {w w' : World} (h : C08L.Refused w w') (y : Nat) :
     (w'.dev y).noWR = (w.dev y).noWR := C08L.refFrame_dev h.2 y
@@ -103,6 +183,7 @@ theorem KOK.of_refused {w w' : World} (h : KOK w) (r : C08L.Refused w w') : KOK 
   have h2 := noWR_field Dev.resReq (fun _ => rfl) hd
   have h1' : (w'.dev x).kind = (w.dev x).kind := h1
   have h2' : (w'.dev x).resReq = (w.dev x).resReq := h2
+  unfold reqNN
   rw [h1', h2']; exact h x
 
 theorem canAcceptBasic_refused {w w' : World} (r : C08L.Refused w w') (z p : Nat) :
@@ -123,42 +204,289 @@ theorem gatePred_parts {w w' : World} (h : w'.parts = w.parts) (pr : Pred) (p : 
     w'.gatePred pr p = w.gatePred pr p := by
   unfold gatePred partValue part; rw [h]
 
-theorem wouldAccept_refused {w w' : World} (r : C08L.Refused w w') (f y p : Nat) :
-    wouldAccept f w' y p = wouldAccept f w y p := by
-  rw [← wouldAcceptN_nil, ← wouldAcceptN_nil]
-  apply wouldAcceptN_congr
-  · intro z
-    have hd := refused_dev r z
-    exact ⟨noWR_field Dev.kind (fun _ => rfl) hd, noWR_field Dev.pred (fun _ => rfl) hd,
-      noWR_field Dev.down (fun _ => rfl) hd⟩
-  · exact fun pr => gatePred_parts r.1 pr p
-  · exact fun z => canAcceptBasic_refused r z p
+/-- What a refusal does besides `C08L.Refused`: it takes nothing from the pools, and it only SETS
+`waitingRes` flags. -/
+structure RefX (w w' : World) : Prop where
+  pools : w'.rm.pools = w.rm.pools
+  flags : ∀ z, (w.dev z).waitingRes = true → (w'.dev z).waitingRes = true
 
-theorem procAcquire_none (w : World) (x : Nat) (h : (w.dev x).resReq = none) :
-    w.procAcquire x = (w, true) := by
-  unfold procAcquire; simp only [h]
+theorem RefX.refl (w : World) : RefX w w := ⟨rfl, fun _ h => h⟩
 
-theorem tryList_answer {g : World → Nat → Nat → World × Bool} {f p : Nat}
-    (hg : ∀ w y, KOK w → (g w y p).2 = wouldAccept f w y p)
-    (hr : ∀ w y w', g w y p = (w', false) → C08L.Refused w w') :
-    ∀ (l : List Nat) (w : World), KOK w →
-      (tryList g w l p).2 = l.any (fun y => wouldAccept f w y p) := by
+theorem RefX.trans {w w' w'' : World} (h : RefX w w') (h' : RefX w' w'') : RefX w w'' :=
+  ⟨h'.pools.trans h.pools, fun z hz => h'.flags z (h.flags z hz)⟩
+
+theorem noParts_devs_eq {w w' : World} (h : w'.noParts = w.noParts) : w'.devs = w.devs := by
+  have := congrArg World.devs h; exact this
+
+theorem noParts_rm_eq {w w' : World} (h : w'.noParts = w.noParts) : w'.rm = w.rm := by
+  have := congrArg World.rm h; exact this
+
+theorem RefX.of_noParts {w w' : World} (h : w'.noParts = w.noParts) : RefX w w' := by
+  have hd : w'.devs = w.devs := noParts_devs_eq h
+  have hr : w'.rm = w.rm := noParts_rm_eq h
+  exact ⟨by rw [hr], fun z hz => by rw [dev_congr hd]; exact hz⟩
+
+theorem RefX.setErr (w : World) (m : String) : RefX w (w.setErr m) :=
+  ⟨by rw [setErr_rm], fun z hz => by rw [dev_setErr]; exact hz⟩
+
+theorem RefX.modPart (w : World) (p : Nat) (g : PartRec → PartRec) : RefX w (w.modPart p g) :=
+  ⟨rfl, fun _ h => h⟩
+
+theorem procAcquire_refX (w : World) (x : Nat) (h : (w.procAcquire x).2 = false) :
+    RefX w (w.procAcquire x).1 := by
+  refine ⟨(procAcquire_false w x h).1, ?_⟩
+  revert h
+  unfold procAcquire
+  dsimp only
+  repeat' split
+  all_goals first
+    | (intro h; cases h; done)
+    | (intro _ z hz; exact hz)
+    | (intro _ z hz; rw [dev_setErr]; exact hz)
+    | skip
+  · intro _ z hz
+    rw [dev_modDev]
+    split
+    · rfl
+    · rw [dev_rmEffects]; exact hz
+
+/-- The refusal relation of the machinery. -/
+structure Ref (w w' : World) : Prop where
+  ref : C08L.Refused w w'
+  x : RefX w w'
+
+theorem Ref.refl (w : World) : Ref w w := ⟨.refl w, .refl w⟩
+
+theorem tryList_refX {g : World → Nat → Nat → World × Bool} {p : Nat}
+    (hg : ∀ w y w', g w y p = (w', false) → RefX w w') :
+    ∀ {l : List Nat} {w w' : World}, tryList g w l p = (w', false) → RefX w w' := by
   intro l
   induction l with
-  | nil => intro w _; rfl
+  | nil =>
+    intro w w' h
+    have : w = w' := by simpa [tryList] using h
+    subst this; exact .refl w
   | cons y ys ih =>
-    intro w hw
-    rw [tryList]
-    have h1 := hg w y hw
+    intro w w' h
     rcases hgy : g w y p with ⟨w1, b⟩
-    rw [hgy] at h1
     cases b
-    · simp only [List.any_cons]
-      have r := hr w y w1 hgy
-      rw [ih w1 (hw.of_refused r), ← h1]
-      simp only [Bool.false_or]
-      exact List.any_congr rfl (fun z => wouldAccept_refused r f z p)
-    · simp only [List.any_cons, ← h1, Bool.true_or]
+    · rw [C08L.tryList_cons_false _ hgy] at h
+      exact (hg w y w1 hgy).trans (ih h)
+    · rw [C08L.tryList_cons_true _ hgy] at h
+      simp at h
+
+theorem give_refX (f : Nat) : ∀ (w : World) (x p : Nat) (w' : World),
+    give f w x p = (w', false) → RefX w w' := by
+  induction f with
+  | zero =>
+    intro w x p w' h
+    rw [give.eq_1] at h
+    have : w.setErr "fuel" = w' := by simpa using h
+    subst this
+    exact .setErr _ _
+  | succ f ih =>
+    intro w x p w' h
+    have ihl : ∀ {w w' : World} {l : List Nat}, tryList (give f) w l p = (w', false) →
+        RefX w w' := fun h => tryList_refX (fun w y w' h => ih w y p w' h) h
+    rw [give.eq_2] at h
+    split at h
+    -- source, handler, buffer, batcher, sink
+    iterate 5
+      · split at h
+        · simp at h
+        · have : w = w' := by simpa using h
+          subst this; exact .refl _
+    -- processor
+    · split at h
+      · split at h
+        · simp at h
+        · next w1 hacq =>
+          have : w1 = w' := by simpa using h
+          subst this
+          have h1 : (w.procAcquire x).1 = w1 := by rw [hacq]
+          have h2 : (w.procAcquire x).2 = false := by rw [hacq]
+          rw [← h1]
+          exact procAcquire_refX w x h2
+      · have : w = w' := by simpa using h
+        subst this; exact .refl _
+    -- gate
+    · split at h
+      · have : w = w' := by simpa using h
+        subst this; exact .refl _
+      · split at h
+        · have : w = w' := by simpa using h
+          subst this; exact .refl _
+        · dsimp only at h
+          split at h
+          · simp at h
+          · next w2 htl =>
+            have : w2.dropHist p = w' := by simpa using h
+            subst this
+            exact ((RefX.of_noParts (addHist_noParts w p x)).trans (ihl htl)).trans
+              (.of_noParts (dropHist_noParts w2 p))
+    -- ginput
+    · split at h
+      · have : w = w' := by simpa using h
+        subst this; exact .refl _
+      · exact ihl h
+    -- gpath
+    · split at h
+      · have : w = w' := by simpa using h
+        subst this; exact .refl _
+      · dsimp only at h
+        split at h
+        · simp at h
+        · next w3 hgv =>
+          have : (w3.modPart p (fun r => { r with stack := r.stack.dropLast })).dropHist p = w' :=
+            (Prod.mk.inj h).1
+          subst this
+          have hr := ih _ _ _ _ hgv
+          exact ((((RefX.modPart w p _).trans (.of_noParts (addHist_noParts _ p x))).trans hr).trans
+            (.modPart w3 p _)).trans (.of_noParts (dropHist_noParts _ p))
+    -- goutput
+    · split at h
+      · have : w.setErr "no-group-path" = w' := by simpa using h
+        subst this
+        exact .setErr _ _
+      · next g hgl =>
+        dsimp only at h
+        split at h
+        · simp at h
+        · next w2 htl =>
+          have : w2.modPart p (fun r => { r with stack := r.stack ++ [g] }) = w' :=
+            (Prod.mk.inj h).1
+          subst this
+          exact ((RefX.modPart w p _).trans (ihl htl)).trans (.modPart w2 p _)
+
+theorem give_ref (f : Nat) (w : World) (x p : Nat) (w' : World)
+    (h : give f w x p = (w', false)) : Ref w w' :=
+  ⟨C08L.give_refused f w x p w' h, give_refX f w x p w' h⟩
+
+theorem tryList_ref {g : World → Nat → Nat → World × Bool} {p : Nat}
+    (hg : ∀ w y w', g w y p = (w', false) → Ref w w')
+    {w w' : World} {l : List Nat} (h : tryList g w l p = (w', false)) : Ref w w' :=
+  ⟨C08L.tryList_refused (fun w y w' h => (hg w y w' h).ref) h,
+   tryList_refX (fun w y w' h => (hg w y w' h).x) h⟩
+
+theorem refused_groups {w w' : World} (r : C08L.Refused w w') : w'.groups = w.groups := by
+  have := congrArg World.groups r.2
+  exact this
+
+theorem topoEq_refused {w w' : World} (r : C08L.Refused w w') : TopoEq w w' := by
+  refine ⟨fun z => ?_, fun z => ?_, fun z => ?_, fun z => ?_, refused_groups r⟩
+  · exact noWR_field Dev.kind (fun _ => rfl) (refused_dev r z)
+  · exact noWR_field Dev.pred (fun _ => rfl) (refused_dev r z)
+  · exact noWR_field Dev.down (fun _ => rfl) (refused_dev r z)
+  · exact noWR_field Dev.group (fun _ => rfl) (refused_dev r z)
+
+theorem procM_ref {w w' : World} (r : Ref w w') (z : Nat)
+    (h : procM (w'.dev z) = true) : procM (w.dev z) = true := by
+  have hd := refused_dev r.ref z
+  have e1 : (w'.dev z).kind = (w.dev z).kind := noWR_field Dev.kind (fun _ => rfl) hd
+  have e2 : (w'.dev z).resReq = (w.dev z).resReq := noWR_field Dev.resReq (fun _ => rfl) hd
+  have e3 : (w'.dev z).reserved = (w.dev z).reserved := noWR_field Dev.reserved (fun _ => rfl) hd
+  unfold procM at h ⊢
+  rw [e1, e2, e3] at h
+  cases hk : (w.dev z).kind <;> simp only [hk] at h ⊢
+  cases hq : (w.dev z).resReq with
+  | none => rfl
+  | some req =>
+    simp only [hq] at h ⊢
+    cases hres : (w.dev z).reserved.isSome with
+    | true => rfl
+    | false =>
+      rw [hres, Bool.false_or] at h
+      cases hf : (w.dev z).waitingRes with
+      | false => rfl
+      | true =>
+        rw [r.x.flags z hf] at h; cases h
+
+theorem accM_ref {w w' : World} (r : Ref w w') (z p : Nat) (h : accM w' z p = true) :
+    accM w z p = true := by
+  unfold accM at h ⊢
+  simp only [Bool.and_eq_true] at h ⊢
+  exact ⟨by rw [← canAcceptBasic_refused r.ref]; exact h.1, procM_ref r z h.2⟩
+
+/-- acceptance in the invariant's sense only shrinks along refusals -/
+theorem wouldAcceptS_ref {w w' : World} (r : Ref w w') (N : List Nat) (f y p : Nat) (stk : List Nat)
+    (h : wouldAcceptS f w' N [] y p stk = true) : wouldAcceptS f w N [] y p stk = true :=
+  wouldAcceptS_mono (topoEq_refused r.ref) (fun pr => gatePred_parts r.ref.1 pr p)
+    (fun z hz hc => ⟨hz, by
+      rw [Bool.or_eq_true] at hc ⊢
+      exact hc.imp id (accM_ref r z p)⟩) f y stk h
+
+theorem wouldAcceptN_ref {w w' : World} (r : Ref w w') (N : List Nat) (f y p : Nat)
+    (h : wouldAcceptN f w' N [] y p = true) : wouldAcceptN f w N [] y p = true := by
+  unfold wouldAcceptN at h ⊢
+  rw [part_congr r.ref.1] at h
+  exact wouldAcceptS_ref r N f y p _ h
+
+theorem procReal_ref {w w' : World} (r : Ref w w') (z : Nat) : procReal w' z = procReal w z := by
+  have hd := refused_dev r.ref z
+  have e2 : (w'.dev z).resReq = (w.dev z).resReq := noWR_field Dev.resReq (fun _ => rfl) hd
+  have e3 : (w'.dev z).reserved = (w.dev z).reserved := noWR_field Dev.reserved (fun _ => rfl) hd
+  unfold procReal
+  rw [e2, e3]
+  cases (w.dev z).resReq with
+  | none => rfl
+  | some req => simp only [C10.canFulfill_pools _ _ r.x.pools]
+
+/-- same topology, same answers of the single devices ⇒ same real answer -/
+theorem wouldAcceptT_congr {w w' : World} {p : Nat} (hk : TopoEq w w')
+    (hg : ∀ pr, w'.gatePred pr p = w.gatePred pr p)
+    (hc : ∀ z, w'.canAcceptBasic z p = w.canAcceptBasic z p)
+    (hb : ∀ z, (w'.dev z).blockInput = (w.dev z).blockInput)
+    (hr : ∀ z, procReal w' z = procReal w z) :
+    ∀ f y stk, wouldAcceptT f w' y p stk = wouldAcceptT f w y p stk := by
+  intro f
+  induction f with
+  | zero => intro y stk; rfl
+  | succ f ih =>
+    intro y stk
+    unfold wouldAcceptT
+    simp only [hk.kind, hk.pred, hk.down, hg, hc, hb, hr, hk.groupIn, ih]
+
+/-- the real answer is not changed by a refusal -/
+theorem wouldAcceptT_refused {w w' : World} (r : Ref w w') (f y p : Nat) (stk : List Nat) :
+    wouldAcceptT f w' y p stk = wouldAcceptT f w y p stk :=
+  wouldAcceptT_congr (topoEq_refused r.ref) (fun pr => gatePred_parts r.ref.1 pr p)
+    (fun z => canAcceptBasic_refused r.ref z p)
+    (fun z => noWR_field Dev.blockInput (fun _ => rfl) (refused_dev r.ref z))
+    (procReal_ref r) f y stk
+
+theorem wouldAccept_refused {w w' : World} (r : Ref w w') (f y p : Nat) :
+    wouldAccept f w' y p = wouldAccept f w y p := by
+  unfold wouldAccept
+  rw [part_congr r.ref.1]
+  exact wouldAcceptT_refused r f y p _
+
+/-! ### `give` answers `wouldAccept` -/
+
+/-- the answer of `procAcquire` -/
+theorem procAcquire_answer {w : World} (hw : KOK w) (x : Nat) :
+    (w.procAcquire x).2 = procReal w x := by
+  unfold procReal
+  cases hq : (w.dev x).resReq with
+  | none => rw [procAcquire_noop w x (Or.inl hq)]
+  | some req =>
+    simp only []
+    cases hres : (w.dev x).reserved with
+    | some id => rw [procAcquire_noop w x (Or.inr (by rw [hres]; rfl))]; rfl
+    | none =>
+      have hnn : ∀ e ∈ req, 0 ≤ e.2 := (hw x).2 req (by rw [hq]; simp)
+      have hany : req.any (fun e => e.2 < 0) = false := by
+        rw [List.any_eq_false]; intro e he; have := hnn e he; simp; omega
+      simp only [Option.isSome_none, Bool.false_or, hany, Bool.not_false, Bool.true_and]
+      by_cases hf : C09.fits w.rm req
+      · rw [procAcquire_fits w x req hq hres hnn hf]
+        exact ((C09.canFulfill_filter_iff w.rm req).2 hf).symm
+      · rw [procAcquire_not_fits w x req hq hres hnn hf]
+        have : w.rm.canFulfill (req.filter (fun e => e.2 > 0)) = false := by
+          cases hc : w.rm.canFulfill (req.filter (fun e => e.2 > 0)) with
+          | false => rfl
+          | true => exact absurd ((C09.canFulfill_filter_iff w.rm req).1 hc) hf
+        rw [this]
+        split <;> rfl
 
 theorem any_perm {α} {l l' : List α} (h : l.Perm l') (q : α → Bool) : l.any q = l'.any q := by
   apply Bool.eq_iff_iff.mpr
@@ -167,288 +495,1035 @@ theorem any_perm {α} {l l' : List α} (h : l.Perm l') (q : α → Bool) : l.any
   · rintro ⟨x, hx, hq⟩; exact ⟨x, h.mem_iff.mp hx, hq⟩
   · rintro ⟨x, hx, hq⟩; exact ⟨x, h.mem_iff.mpr hx, hq⟩
 
+/-- the part exists, or no device is a group device (then its group-path stack is never read) -/
+def PV (w : World) (p : Nat) : Prop := p < w.parts.length ∨ NoGrp w
+
+theorem PV.of_refused {w w' : World} {p : Nat} (h : PV w p) (r : C08L.Refused w w') : PV w' p := by
+  rcases h with h | h
+  · left; rw [r.1]; exact h
+  · right; intro x; rw [(topoEq_refused r).kind]; exact h x
+
+theorem PV.of_devs_len {w w' : World} {p : Nat} (h : PV w p) (hd : w'.devs = w.devs)
+    (hl : w'.parts.length = w.parts.length) : PV w' p := by
+  rcases h with h | h
+  · left; rw [hl]; exact h
+  · right; intro x; rw [dev_congr hd]; exact h x
+
+theorem tryList_answer {g : World → Nat → Nat → World × Bool} {f p : Nat}
+    (hg : ∀ w y, KOK w → PV w p → (g w y p).2 = wouldAcceptT f w y p (w.part p).stack)
+    (hr : ∀ w y w', g w y p = (w', false) → Ref w w') :
+    ∀ (l : List Nat) (w : World), KOK w → PV w p →
+      (tryList g w l p).2 = l.any (fun y => wouldAcceptT f w y p (w.part p).stack) := by
+  intro l
+  induction l with
+  | nil => intro w _ _; rfl
+  | cons y ys ih =>
+    intro w hw hv
+    rw [tryList]
+    have h1 := hg w y hw hv
+    rcases hgy : g w y p with ⟨w1, b⟩
+    rw [hgy] at h1
+    cases b
+    · simp only [List.any_cons]
+      have r := hr w y w1 hgy
+      rw [ih w1 (hw.of_refused r.ref) (hv.of_refused r.ref), ← h1]
+      simp only [Bool.false_or]
+      rw [part_congr r.ref.1]
+      exact List.any_congr rfl (fun z => wouldAcceptT_refused r f z p _)
+    · simp only [List.any_cons, ← h1, Bool.true_or]
+
+/-- a change of the parts table that touches neither the batch structure nor quality / value of any
+part does not change the answers -/
+theorem wouldAcceptT_parts {w w' : World} {p : Nat} (hn : w'.noParts = w.noParts)
+    (hg : ∀ pr, w'.gatePred pr p = w.gatePred pr p) (hl : w'.leafCount p = w.leafCount p)
+    (f y : Nat) (stk : List Nat) : wouldAcceptT f w' y p stk = wouldAcceptT f w y p stk := by
+  have hd : w'.devs = w.devs := noParts_devs_eq hn
+  have hdv : ∀ z, w'.dev z = w.dev z := fun z => dev_congr hd z
+  have hgr : w'.groups = w.groups := by have := congrArg World.groups hn; exact this
+  refine wouldAcceptT_congr (.of_devs hd hgr) hg (fun z => ?_) (fun z => by rw [hdv])
+    (fun z => ?_) f y stk
+  · unfold canAcceptBasic operational; simp only [hdv, hl]
+  · unfold procReal; rw [hdv, noParts_rm_eq hn]
+
+theorem wouldAcceptS_parts {w w' : World} {p : Nat} (hn : w'.noParts = w.noParts)
+    (hg : ∀ pr, w'.gatePred pr p = w.gatePred pr p) (hl : w'.leafCount p = w.leafCount p)
+    (f : Nat) (N A : List Nat) (y : Nat) (stk : List Nat) :
+    wouldAcceptS f w' N A y p stk = wouldAcceptS f w N A y p stk := by
+  have hd : w'.devs = w.devs := noParts_devs_eq hn
+  have hdv : ∀ z, w'.dev z = w.dev z := fun z => dev_congr hd z
+  have hgr : w'.groups = w.groups := by have := congrArg World.groups hn; exact this
+  have hacc : ∀ z, accM w' z p = accM w z p := by
+    intro z; unfold accM canAcceptBasic operational; simp only [hdv, hl]
+  apply Bool.eq_iff_iff.mpr
+  constructor
+  · exact wouldAcceptS_mono (.of_devs hd hgr) hg (fun z hz h => ⟨hz, by rw [← hacc]; exact h⟩) f y stk
+  · exact wouldAcceptS_mono (TopoEq.of_devs hd hgr).symm (fun pr => (hg pr).symm)
+      (fun z hz h => ⟨hz, by rw [hacc]; exact h⟩) f y stk
+
+/-- a `modPart` that changes the group-path stack (or the history) only -/
+theorem modPart_noParts (w : World) (p : Nat) (g : PartRec → PartRec) :
+    (w.modPart p g).noParts = w.noParts := rfl
+
+theorem part_modPart_fields (w : World) (q : Nat) (g : PartRec → PartRec)
+    (hg : ∀ r, (g r).quality = r.quality ∧ (g r).value = r.value ∧ (g r).kids = r.kids) (z : Nat) :
+    ((w.modPart q g).part z).quality = (w.part z).quality ∧
+      ((w.modPart q g).part z).value = (w.part z).value ∧
+      ((w.modPart q g).part z).kids = (w.part z).kids := by
+  rw [part_modPart]; split
+  · next hc => rw [(hg _).1, (hg _).2.1, (hg _).2.2, hc.1]; exact ⟨rfl, rfl, rfl⟩
+  · exact ⟨rfl, rfl, rfl⟩
+
+theorem gatePred_modPart (w : World) (q : Nat) (g : PartRec → PartRec)
+    (hg : ∀ r, (g r).quality = r.quality ∧ (g r).value = r.value ∧ (g r).kids = r.kids)
+    (pr : Pred) (p : Nat) : (w.modPart q g).gatePred pr p = w.gatePred pr p := by
+  have hall := part_modPart_fields w q g hg
+  have hv : (w.modPart q g).partValue p = w.partValue p := by
+    unfold partValue
+    cases hk : (w.part p).kids with
+    | none =>
+      have : ((w.modPart q g).part p).kids = none := by rw [(hall p).2.2]; exact hk
+      simp only [this, (hall p).2.1]
+    | some l =>
+      have : ((w.modPart q g).part p).kids = some l := by rw [(hall p).2.2]; exact hk
+      simp only [this]
+      congr 1
+      exact List.map_congr_left (fun k _ => (hall k).2.1)
+  unfold gatePred
+  simp only [hv, (hall p).1]
+
+theorem leafCount_modPart (w : World) (q : Nat) (g : PartRec → PartRec)
+    (hg : ∀ r, (g r).kids = r.kids) (p : Nat) : (w.modPart q g).leafCount p = w.leafCount p := by
+  have e : ((w.modPart q g).part p).kids = (w.part p).kids := by
+    rw [part_modPart]; split
+    · next hc => rw [hg, hc.1]
+    · rfl
+  unfold leafCount
+  simp only [e]
+
+/-- pushing / popping the group-path stack of a part changes nobody's answer -/
+theorem wouldAcceptT_stackOp (w : World) (q : Nat) (g : List Nat → List Nat) (f y p : Nat)
+    (stk : List Nat) :
+    wouldAcceptT f (w.modPart q (fun r => { r with stack := g r.stack })) y p stk =
+      wouldAcceptT f w y p stk :=
+  wouldAcceptT_parts (modPart_noParts w q (fun r => { r with stack := g r.stack }))
+    (fun pr => gatePred_modPart w q (fun r => { r with stack := g r.stack })
+      (fun _ => ⟨rfl, rfl, rfl⟩) pr p)
+    (leafCount_modPart w q (fun r => { r with stack := g r.stack }) (fun _ => rfl) p) f y stk
+
+theorem wouldAcceptS_stackOp (w : World) (q : Nat) (g : List Nat → List Nat) (f : Nat)
+    (N A : List Nat) (y p : Nat) (stk : List Nat) :
+    wouldAcceptS f (w.modPart q (fun r => { r with stack := g r.stack })) N A y p stk =
+      wouldAcceptS f w N A y p stk :=
+  wouldAcceptS_parts (modPart_noParts w q (fun r => { r with stack := g r.stack }))
+    (fun pr => gatePred_modPart w q (fun r => { r with stack := g r.stack })
+      (fun _ => ⟨rfl, rfl, rfl⟩) pr p)
+    (leafCount_modPart w q (fun r => { r with stack := g r.stack }) (fun _ => rfl) p) f N A y stk
+
+theorem wouldAcceptT_addHist (w : World) (q x : Nat) (f y p : Nat) (stk : List Nat) :
+    wouldAcceptT f (w.addHist q x) y p stk = wouldAcceptT f w y p stk :=
+  wouldAcceptT_parts (addHist_noParts w q x) (fun pr => addHist_gatePred w q x pr p)
+    (addHist_leafCount w q x p) f y stk
+
+theorem groups_noParts {w w' : World} (h : w'.noParts = w.noParts) : w'.groups = w.groups := by
+  have := congrArg World.groups h; exact this
+
+theorem stack_push (w : World) {p : Nat} (hp : p < w.parts.length) (x : Nat) :
+    ((w.modPart p (fun r => { r with stack := r.stack ++ [x] })).part p).stack =
+      (w.part p).stack ++ [x] := by
+  rw [part_modPart_same hp]
+
+theorem stack_pop (w : World) {p : Nat} (hp : p < w.parts.length) :
+    ((w.modPart p (fun r => { r with stack := r.stack.dropLast })).part p).stack =
+      (w.part p).stack.dropLast := by
+  rw [part_modPart_same hp]
+
+theorem noGrp_kind {w : World} (h : NoGrp w) {x : Nat} {k : Kind} (hk : (w.dev x).kind = k) :
+    k ≠ .gpath ∧ k ≠ .ginput ∧ k ≠ .goutput := by
+  subst hk; exact h x
+
 /-- **(a) The answer of `give` is `wouldAccept`**: it does not depend on the order in which the
 downstream devices are tried, nor on anything but the acceptance-relevant state. -/
-theorem give_answer_eq (f : Nat) : ∀ (w : World) (x p : Nat), KOK w →
-    (give f w x p).2 = wouldAccept f w x p := by
+theorem give_answer_eq (f : Nat) : ∀ (w : World) (x p : Nat), KOK w → PV w p →
+    (give f w x p).2 = wouldAcceptT f w x p (w.part p).stack := by
   induction f with
-  | zero => intro w x p _; rfl
+  | zero => intro w x p _ _; rfl
   | succ f ih =>
-    intro w x p hw
-    have hT : ∀ (w' : World) (l : List Nat), KOK w' →
-        (tryList (give f) w' l p).2 = l.any (fun y => wouldAccept f w' y p) :=
-      fun w' l hw' => tryList_answer (fun w y hk => ih w y p hk)
-        (fun w y w' h => C08L.give_refused f w y p w' h) l w' hw'
-    rw [give, wouldAccept]
+    intro w x p hw hv
+    have hT : ∀ (w' : World) (l : List Nat), KOK w' → PV w' p →
+        (tryList (give f) w' l p).2 = l.any (fun y => wouldAcceptT f w' y p (w'.part p).stack) :=
+      fun w' l hw' hv' => tryList_answer (fun w y hk hvv => ih w y p hk hvv)
+        (fun w y w' h => give_ref f w y p w' h) l w' hw' hv'
+    rw [give, wouldAcceptT]
     dsimp only
-    have hk := (hw x).1
-    cases hkind : (w.dev x).kind <;> simp only [hkind, kindOK] at hk ⊢
+    cases hkind : (w.dev x).kind <;> simp only [hkind]
     case processor =>
-      rw [procAcquire_none w x (hw x).2]
-      split <;> simp_all
+      have ha := procAcquire_answer hw x
+      cases hc : w.canAcceptBasic x p
+      · simp
+      · simp only [if_true, Bool.true_and]
+        rcases hpa : w.procAcquire x with ⟨w1, b⟩
+        rw [hpa] at ha
+        dsimp only at ha
+        rw [← ha]
+        cases b <;> rfl
     case gate =>
       cases hgp : w.gatePred (w.dev x).pred p
       · simp
       · cases hcb : w.canAcceptBasic x p
         · simp
         · have hw1 : KOK (w.addHist p x) := fun z => by rw [dev_addHist]; exact hw z
-          have hans := hT (w.addHist p x) ((w.addHist p x).sortedDown x) hw1
+          have hv1 : PV (w.addHist p x) p := hv.of_devs_len (addHist_devs w p x) (addHist_parts_length w p x)
+          have hans := hT (w.addHist p x) ((w.addHist p x).sortedDown x) hw1 hv1
           have hperm : ((w.addHist p x).sortedDown x).Perm (w.dev x).down := by
             have := C08.sortedDown_perm (w.addHist p x) x
             rwa [dev_addHist] at this
-          rw [any_perm hperm] at hans
-          have hsame : ∀ y, wouldAccept f (w.addHist p x) y p = wouldAccept f w y p := by
-            intro y
-            rw [← wouldAcceptN_nil, ← wouldAcceptN_nil]
-            apply wouldAcceptN_congr
-            · intro z; rw [dev_addHist]; exact ⟨rfl, rfl, rfl⟩
-            · intro pr; exact addHist_gatePred w p x pr p
-            · intro z
-              unfold canAcceptBasic operational
-              simp only [dev_addHist, addHist_leafCount]
-          simp only [hsame] at hans
+          rw [any_perm hperm, addHist_part_stack] at hans
+          simp only [wouldAcceptT_addHist] at hans
           simp only [Bool.not_true, Bool.false_eq_true, if_false, Bool.true_and, ← hans]
           split <;> simp_all
+    case ginput =>
+      cases hcb : w.canAcceptBasic x p
+      · simp
+      · have hans := hT w (w.sortedDown x) hw hv
+        rw [any_perm (C08.sortedDown_perm w x)] at hans
+        simp only [Bool.not_true, Bool.false_eq_true, if_false, Bool.true_and, ← hans]
+    case gpath =>
+      cases hb : (w.dev x).blockInput
+      · simp only [Bool.false_eq_true, if_false, Bool.not_false, Bool.true_and]
+        have hp : p < w.parts.length := by
+          rcases hv with hv | hv
+          · exact hv
+          · exact absurd hkind (hv x).1
+        -- the world in which the group input is asked
+        have hw2 : KOK ((w.modPart p (fun r => { r with stack := r.stack ++ [x] })).addHist p x) :=
+          fun z => by rw [dev_addHist]; exact hw z
+        have hv2 : PV ((w.modPart p (fun r => { r with stack := r.stack ++ [x] })).addHist p x) p :=
+          Or.inl (by rw [addHist_parts_length, modPart_parts_length]; exact hp)
+        have hgi : (((w.modPart p (fun r => { r with stack := r.stack ++ [x] })).addHist p x).groups.getD
+            (w.dev x).group default).input = groupIn w x := by
+          rw [groups_noParts (addHist_noParts _ p x)]; rfl
+        rw [hgi]
+        have hans := ih ((w.modPart p (fun r => { r with stack := r.stack ++ [x] })).addHist p x)
+          (groupIn w x) p hw2 hv2
+        rw [addHist_part_stack, stack_push w hp, wouldAcceptT_addHist,
+          wouldAcceptT_stackOp w p (fun s => s ++ [x])] at hans
+        rw [← hans]
+        split <;> simp_all
+      · simp
+    case goutput =>
+      cases hl : (w.part p).stack.getLast? with
+      | none => rfl
+      | some g =>
+        simp only []
+        have hp : p < w.parts.length := by
+          rcases hv with hv | hv
+          · exact hv
+          · exact absurd hkind (hv x).2.2
+        have hw1 : KOK (w.modPart p (fun r => { r with stack := r.stack.dropLast })) := hw
+        have hv1 : PV (w.modPart p (fun r => { r with stack := r.stack.dropLast })) p :=
+          Or.inl (by rw [modPart_parts_length]; exact hp)
+        have hans := hT _ ((w.modPart p (fun r => { r with stack := r.stack.dropLast })).sortedDown g)
+          hw1 hv1
+        have hperm : ((w.modPart p (fun r => { r with stack := r.stack.dropLast })).sortedDown g).Perm
+            (w.dev g).down := C08.sortedDown_perm _ g
+        rw [any_perm hperm, stack_pop w hp] at hans
+        simp only [wouldAcceptT_stackOp w p (fun s => s.dropLast)] at hans
+        rw [← hans]
+        split <;> simp_all
     all_goals (split <;> simp_all)
 
-theorem givePart_answer_eq (w : World) (x p : Nat) (hw : KOK w) :
-    (w.givePart x p).2 = wouldAccept w.fuel w x p := give_answer_eq _ w x p hw
+theorem givePart_answer_eq (w : World) (x p : Nat) (hw : KOK w) (hv : PV w p) :
+    (w.givePart x p).2 = wouldAccept w.fuel w x p := give_answer_eq _ w x p hw hv
 
-theorem tryList_givePart_answer (w : World) (l : List Nat) (p : Nat) (hw : KOK w) :
+theorem tryList_givePart_answer (w : World) (l : List Nat) (p : Nat) (hw : KOK w) (hv : PV w p) :
     (tryList givePart w l p).2 = l.any (fun y => wouldAccept w.fuel w y p) := by
-  have key : ∀ (l : List Nat) (w' : World), w'.devs.length = w.devs.length → KOK w' →
+  have key : ∀ (l : List Nat) (w' : World), w'.devs.length = w.devs.length → KOK w' → PV w' p →
       (tryList givePart w' l p).2 = l.any (fun y => wouldAccept w.fuel w' y p) := by
     intro l
     induction l with
-    | nil => intro w' _ _; rfl
+    | nil => intro w' _ _ _; rfl
     | cons y ys ih =>
-      intro w' hl hw'
+      intro w' hl hw' hv'
       rw [tryList]
-      have h1 := givePart_answer_eq w' y p hw'
+      have h1 := givePart_answer_eq w' y p hw' hv'
       have hf : w'.fuel = w.fuel := by unfold World.fuel; rw [hl]
       rw [hf] at h1
       rcases hgy : givePart w' y p with ⟨w1, b⟩
       rw [hgy] at h1
       cases b
       · simp only [List.any_cons]
-        have r := C08L.give_refused _ w' y p w1 hgy
-        have hl1 : w1.devs.length = w.devs.length := (C08L.refFrame_devs_length r.2).trans hl
-        rw [ih w1 hl1 (hw'.of_refused r), ← h1]
+        have r := give_ref _ w' y p w1 hgy
+        have hl1 : w1.devs.length = w.devs.length := (C08L.refFrame_devs_length r.ref.2).trans hl
+        rw [ih w1 hl1 (hw'.of_refused r.ref) (hv'.of_refused r.ref), ← h1]
         simp only [Bool.false_or]
         exact List.any_congr rfl (fun z => wouldAccept_refused r w.fuel z p)
       · simp only [List.any_cons, ← h1, Bool.true_or]
-  exact key l w rfl hw
+  exact key l w rfl hw hv
 
-/-! ### gate chains -/
+/-! ### after a refusal the refuser refuses in the invariant's sense -/
 
-/-- `GChain w k y x`: `y = g₁ → g₂ → … → g_k → x` along `down`, all `gᵢ` gates. -/
-inductive GChain (w : World) : Nat → Nat → Nat → Prop
-  | here (x : Nat) : GChain w 0 x x
-  | step {k y z x : Nat} : (w.dev y).kind = .gate → z ∈ (w.dev y).down → GChain w k z x →
-      GChain w (k + 1) y x
+theorem wouldAcceptN_noParts {w w' : World} (h : w'.noParts = w.noParts)
+    (hg : ∀ pr p, w'.gatePred pr p = w.gatePred pr p) (hl : ∀ p, w'.leafCount p = w.leafCount p)
+    (hs : ∀ p, (w'.part p).stack = (w.part p).stack)
+    (f : Nat) (N A : List Nat) (y p : Nat) : wouldAcceptN f w' N A y p = wouldAcceptN f w N A y p := by
+  unfold wouldAcceptN
+  rw [hs]
+  exact wouldAcceptS_parts h (fun pr => hg pr p) (hl p) f N A y _
 
-theorem GChain.depth {w : World} {k y x : Nat} (h : GChain w k y x) :
-    ∀ f, gateDepthLe f w y = true → k ≤ f := by
+theorem wouldAcceptS_addHist (w : World) (q x : Nat) (f : Nat) (N A : List Nat) (y p : Nat)
+    (stk : List Nat) : wouldAcceptS f (w.addHist q x) N A y p stk = wouldAcceptS f w N A y p stk :=
+  wouldAcceptS_parts (addHist_noParts w q x) (fun pr => addHist_gatePred w q x pr p)
+    (addHist_leafCount w q x p) f N A y stk
+
+theorem wouldAcceptS_dropHist (w : World) (q : Nat) (f : Nat) (N A : List Nat) (y p : Nat)
+    (stk : List Nat) : wouldAcceptS f (w.dropHist q) N A y p stk = wouldAcceptS f w N A y p stk :=
+  wouldAcceptS_parts (dropHist_noParts w q) (fun pr => dropHist_gatePred w q pr p)
+    (dropHist_leafCount w q p) f N A y stk
+
+/-- a refused offer round: afterwards every device of the round refuses (in the invariant's
+sense) -/
+theorem tryList_refusedR {g : World → Nat → Nat → World × Bool} {f p : Nat} {stk : List Nat}
+    (hg : ∀ w y w', KOK w → PV w p → (w.part p).stack = stk → g w y p = (w', false) →
+      wouldAcceptS f w' [] [] y p stk = false)
+    (hr : ∀ w y w', g w y p = (w', false) → Ref w w') :
+    ∀ (l : List Nat) (w w' : World), KOK w → PV w p → (w.part p).stack = stk →
+      tryList g w l p = (w', false) → ∀ y ∈ l, wouldAcceptS f w' [] [] y p stk = false := by
+  intro l
+  induction l with
+  | nil => intro w w' _ _ _ _ y hy; cases hy
+  | cons z zs ih =>
+    intro w w' hw hv hs h y hy
+    rcases hgz : g w z p with ⟨w1, b⟩
+    cases b
+    · rw [C08L.tryList_cons_false _ hgz] at h
+      have r1 := hr w z w1 hgz
+      rcases List.mem_cons.mp hy with rfl | hy
+      · have h1 := hg w y w1 hw hv hs hgz
+        have r2 : Ref w1 w' := tryList_ref hr h
+        cases hh : wouldAcceptS f w' [] [] y p stk with
+        | false => rfl
+        | true => rw [wouldAcceptS_ref r2 [] f y p stk hh] at h1; cases h1
+      · exact ih w1 w' (hw.of_refused r1.ref) (hv.of_refused r1.ref)
+          (by rw [part_congr r1.ref.1]; exact hs) h y hy
+    · rw [C08L.tryList_cons_true _ hgz] at h
+      simp at h
+
+theorem accM_false_of_cab {w : World} {x p : Nat} (h : w.canAcceptBasic x p = false) :
+    accM w x p = false := by
+  unfold accM; rw [h]; rfl
+
+/-- **A refused `give` leaves the refuser refusing** (in the invariant's sense: a processor that
+refused for want of resources is registered with the manager afterwards). -/
+theorem give_refusedR (f : Nat) : ∀ (w : World) (x p : Nat) (w' : World), KOK w → PV w p →
+    give f w x p = (w', false) → wouldAcceptS f w' [] [] x p (w.part p).stack = false := by
+  induction f with
+  | zero => intro w x p w' _ _ _; rfl
+  | succ f ih =>
+    intro w x p w' hw hv h
+    have hT : ∀ (w0 w1 : World) (l : List Nat), KOK w0 → PV w0 p →
+        tryList (give f) w0 l p = (w1, false) →
+        ∀ y ∈ l, wouldAcceptS f w1 [] [] y p (w0.part p).stack = false :=
+      fun w0 w1 l hk0 hv0 ht => tryList_refusedR (stk := (w0.part p).stack)
+        (fun w y w' hk hvv hss hh => by rw [← hss]; exact ih w y p w' hk hvv hh)
+        (fun w y w' hh => give_ref f w y p w' hh) l w0 w1 hk0 hv0 rfl ht
+    unfold wouldAcceptS
+    simp only [List.contains_nil, Bool.false_and, Bool.false_eq_true, if_false, Bool.false_or]
+    rw [give] at h
+    dsimp only at h
+    cases hk : (w.dev x).kind <;> simp only [hk] at h
+    case processor =>
+      split at h
+      · next hc =>
+        rcases hpa : w.procAcquire x with ⟨w1, b⟩
+        rw [hpa] at h
+        cases b
+        · have : w1 = w' := by simpa using h
+          subst this
+          have hk1 : (w1.dev x).kind = .processor := by
+            have := procAcquire_dev_field Dev.kind (fun _ _ _ => rfl) w x x
+            rw [hpa] at this; rw [this]; exact hk
+          simp only [hk1, accM]
+          have hpm : procM (w1.dev x) = false := by
+            cases hq : (w.dev x).resReq with
+            | none => rw [procAcquire_noop w x (Or.inl hq)] at hpa; cases hpa
+            | some req =>
+              cases hres : (w.dev x).reserved with
+              | some id =>
+                rw [procAcquire_noop w x (Or.inr (by rw [hres]; rfl))] at hpa; cases hpa
+              | none =>
+                have hnn : ∀ e ∈ req, 0 ≤ e.2 := (hw x).2 req (by rw [hq]; simp)
+                have hx := valid_of_resReq hq
+                by_cases hf : C09.fits w.rm req
+                · rw [procAcquire_fits w x req hq hres hnn hf] at hpa; cases hpa
+                · rw [procAcquire_not_fits w x req hq hres hnn hf] at hpa
+                  split at hpa
+                  · next hfl =>
+                    have : w = w1 := by simpa using hpa
+                    subst this
+                    unfold procM; rw [hk, hq, hres, hfl]; rfl
+                  · have : _ = w1 := (Prod.mk.inj hpa).1
+                    subst this
+                    rw [dev_modDev_same (by rw [rmEffects_devs]; exact hx), dev_rmEffects]
+                    show procM { w.dev x with waitingRes := true } = false
+                    unfold procM
+                    simp only [hk, hq, hres]
+                    rfl
+          rw [hpm, Bool.and_false]
+        · cases h
+      · next hc =>
+        have : w = w' := by simpa using h
+        subst this
+        have hc' : w.canAcceptBasic x p = false := by simpa using hc
+        simp only [hk, accM_false_of_cab hc']
+    case gate =>
+      split at h
+      · next hp =>
+        have : w = w' := by simpa using h
+        subst this
+        have hp' : w.gatePred (w.dev x).pred p = false := by simpa using hp
+        simp only [hk, hp', Bool.false_and]
+      · split at h
+        · next hc =>
+          have : w = w' := by simpa using h
+          subst this
+          have hc' : w.canAcceptBasic x p = false := by simpa using hc
+          simp only [hk, accM_false_of_cab hc', Bool.false_and, Bool.and_false]
+        · rcases ht : tryList (give f) (w.addHist p x) ((w.addHist p x).sortedDown x) p with ⟨w1, b⟩
+          rw [ht] at h
+          cases b
+          · have : w1.dropHist p = w' := by simpa using h
+            subst this
+            have hw1 : KOK (w.addHist p x) := fun z => by rw [dev_addHist]; exact hw z
+            have hv1 : PV (w.addHist p x) p :=
+              hv.of_devs_len (addHist_devs w p x) (addHist_parts_length w p x)
+            have hall := hT _ _ _ hw1 hv1 ht
+            rw [addHist_part_stack] at hall
+            have hr : Ref (w.addHist p x) w1 := tryList_ref (fun w y w' hh => give_ref f w y p w' hh) ht
+            have hte := topoEq_refused hr.ref
+            have hdn : ((w1.dropHist p).dev x).down = (w.dev x).down := by
+              rw [dev_dropHist, hte.down, dev_addHist]
+            have hkk : ((w1.dropHist p).dev x).kind = .gate := by
+              rw [dev_dropHist, hte.kind, dev_addHist]; exact hk
+            simp only [hkk, hdn]
+            have : (w.dev x).down.any
+                (fun y => wouldAcceptS f (w1.dropHist p) [] [] y p (w.part p).stack) = false := by
+              rw [List.any_eq_false]
+              intro y hy
+              rw [wouldAcceptS_dropHist]
+              have hy' : y ∈ (w.addHist p x).sortedDown x := by
+                rw [C08.sortedDown_mem, dev_addHist]; exact hy
+              rw [hall y hy']; simp
+            rw [this, Bool.and_false]
+          · cases h
+    case ginput =>
+      split at h
+      · next hc =>
+        have : w = w' := by simpa using h
+        subst this
+        have hc' : w.canAcceptBasic x p = false := by simpa using hc
+        simp only [hk, accM_false_of_cab hc', Bool.false_and]
+      · have hall := hT _ _ _ hw hv h
+        have hr : Ref w w' := tryList_ref (fun w y w' hh => give_ref f w y p w' hh) h
+        have hte := topoEq_refused hr.ref
+        simp only [hte.kind, hk, hte.down]
+        have : (w.dev x).down.any (fun y => wouldAcceptS f w' [] [] y p (w.part p).stack) = false := by
+          rw [List.any_eq_false]
+          intro y hy
+          rw [hall y ((C08.sortedDown_mem w x y).mpr hy)]; simp
+        rw [this, Bool.and_false]
+    case gpath =>
+      split at h
+      · next hb =>
+        have : w = w' := by simpa using h
+        subst this
+        have : accM w x p = false := by
+          rw [accM_ctrl (by rw [hk]; rfl), canAcceptBasic_ctrl (by rw [hk]; rfl), hb]; rfl
+        simp only [hk, this, Bool.false_and]
+      · have hp : p < w.parts.length := by
+          rcases hv with hv | hv
+          · exact hv
+          · exact absurd hk (hv x).1
+        have hgi : (((w.modPart p (fun r => { r with stack := r.stack ++ [x] })).addHist p x).groups.getD
+            (w.dev x).group default).input = groupIn w x := by
+          rw [groups_noParts (addHist_noParts _ p x)]; rfl
+        rw [hgi] at h
+        rcases hgv : give f ((w.modPart p (fun r => { r with stack := r.stack ++ [x] })).addHist p x)
+            (groupIn w x) p with ⟨w3, b⟩
+        rw [hgv] at h
+        cases b
+        · have hw' : (w3.modPart p (fun r => { r with stack := r.stack.dropLast })).dropHist p = w' :=
+            (Prod.mk.inj h).1
+          subst hw'
+          have hw2 : KOK ((w.modPart p (fun r => { r with stack := r.stack ++ [x] })).addHist p x) :=
+            fun z => by rw [dev_addHist]; exact hw z
+          have hv2 : PV ((w.modPart p (fun r => { r with stack := r.stack ++ [x] })).addHist p x) p :=
+            Or.inl (by rw [addHist_parts_length, modPart_parts_length]; exact hp)
+          have h1 := ih _ _ _ _ hw2 hv2 hgv
+          rw [addHist_part_stack, stack_push w hp] at h1
+          have hr : Ref ((w.modPart p (fun r => { r with stack := r.stack ++ [x] })).addHist p x) w3 :=
+            give_ref f _ _ p w3 hgv
+          have hte := topoEq_refused hr.ref
+          have hkk : (((w3.modPart p (fun r => { r with stack := r.stack.dropLast })).dropHist p).dev
+              x).kind = .gpath := by
+            rw [dev_dropHist, dev_modPart, hte.kind, dev_addHist, dev_modPart]; exact hk
+          have hgi2 : groupIn ((w3.modPart p (fun r => { r with stack := r.stack.dropLast })).dropHist p) x
+              = groupIn w x := by
+            unfold groupIn
+            rw [dev_dropHist, dev_modPart, hte.group, dev_addHist, dev_modPart,
+              groups_noParts (dropHist_noParts _ p)]
+            show (w3.groups.getD _ default).input = _
+            rw [hte.groups, groups_noParts (addHist_noParts _ p x)]
+            rfl
+          simp only [hkk, hgi2]
+          rw [wouldAcceptS_dropHist, wouldAcceptS_stackOp w3 p (fun s => s.dropLast), h1,
+            Bool.and_false]
+        · cases h
+    case goutput =>
+      cases hl : (w.part p).stack.getLast? with
+      | none =>
+        rw [hl] at h
+        have : w.setErr "no-group-path" = w' := by simpa using h
+        subst this
+        simp only [dev_setErr, hk]
+      | some g =>
+        simp only [hl] at h ⊢
+        have hp : p < w.parts.length := by
+          rcases hv with hv | hv
+          · exact hv
+          · exact absurd hk (hv x).2.2
+        rcases ht : tryList (give f) (w.modPart p (fun r => { r with stack := r.stack.dropLast }))
+            ((w.modPart p (fun r => { r with stack := r.stack.dropLast })).sortedDown g) p with ⟨w2, b⟩
+        rw [ht] at h
+        cases b
+        · have hw' : w2.modPart p (fun r => { r with stack := r.stack ++ [g] }) = w' :=
+            (Prod.mk.inj h).1
+          subst hw'
+          have hw1 : KOK (w.modPart p (fun r => { r with stack := r.stack.dropLast })) := hw
+          have hv1 : PV (w.modPart p (fun r => { r with stack := r.stack.dropLast })) p :=
+            Or.inl (by rw [modPart_parts_length]; exact hp)
+          have hall := hT _ _ _ hw1 hv1 ht
+          rw [stack_pop w hp] at hall
+          have hr : Ref (w.modPart p (fun r => { r with stack := r.stack.dropLast })) w2 :=
+            tryList_ref (fun w y w' hh => give_ref f w y p w' hh) ht
+          have hte := topoEq_refused hr.ref
+          have hkk : ((w2.modPart p (fun r => { r with stack := r.stack ++ [g] })).dev x).kind =
+              .goutput := by rw [dev_modPart, hte.kind, dev_modPart]; exact hk
+          have hdn : ((w2.modPart p (fun r => { r with stack := r.stack ++ [g] })).dev g).down =
+              (w.dev g).down := by rw [dev_modPart, hte.down, dev_modPart]
+          simp only [hkk, hdn]
+          have : (w.dev g).down.any (fun y => wouldAcceptS f
+              (w2.modPart p (fun r => { r with stack := r.stack ++ [g] })) [] [] y p
+              (w.part p).stack.dropLast) = false := by
+            rw [List.any_eq_false]
+            intro y hy
+            rw [wouldAcceptS_stackOp w2 p (fun s => s ++ [g])]
+            have hy' : y ∈ (w.modPart p (fun r => { r with stack := r.stack.dropLast })).sortedDown g := by
+              rw [C08.sortedDown_mem, dev_modPart]; exact hy
+            rw [hall y hy']; simp
+          rw [this, Bool.and_false]
+        · cases h
+    all_goals
+      (split at h
+       · simp at h
+       · next hc =>
+         have : w = w' := by simpa using h
+         subst this
+         have hc' : w.canAcceptBasic x p = false := by simpa using hc
+         simp only [hk, accM_false_of_cab hc'])
+
+/-! ### controller chains -/
+
+/-- one step of an offer through a controller, with the number of recursion levels the notification
+dispatch spends on the way back -/
+inductive CEdge (w : World) : Nat → Nat → Nat → Prop
+  | gate {y z : Nat} : (w.dev y).kind = .gate → z ∈ (w.dev y).down → CEdge w y z 2
+  | ginput {y z : Nat} : (w.dev y).kind = .ginput → z ∈ (w.dev y).down → CEdge w y z 2
+  | gpath {y : Nat} : (w.dev y).kind = .gpath → CEdge w y (groupIn w y) 1
+  | goutput {y z : Nat} (g : Nat) : (w.dev y).kind = .goutput → (w.dev g).kind = .gpath →
+      groupOut w g = y → z ∈ (w.dev g).down → CEdge w y z 3
+
+/-- `CChain w l k y x`: an offer to `y` is passed on through `l` controllers to `x`; the way back
+costs the notification dispatch `k` recursion levels. -/
+inductive CChain (w : World) : Nat → Nat → Nat → Nat → Prop
+  | here (x : Nat) : CChain w 0 0 x x
+  | step {l k c y z x : Nat} : CEdge w y z c → CChain w l k z x → CChain w (l + 1) (c + k) y x
+
+theorem CEdge.isCtrl {w : World} {y z c : Nat} (h : CEdge w y z c) :
+    isCtrl (w.dev y).kind = true ∧ c = ccost (w.dev y).kind := by
+  cases h with
+  | gate hk _ => rw [hk]; exact ⟨rfl, rfl⟩
+  | ginput hk _ => rw [hk]; exact ⟨rfl, rfl⟩
+  | gpath hk => rw [hk]; exact ⟨rfl, rfl⟩
+  | goutput g hk _ _ _ => rw [hk]; exact ⟨rfl, rfl⟩
+
+theorem kind_lt' {w : World} {x : Nat} (hk : (w.dev x).kind ≠ .handler) : x < w.devs.length := by
+  apply Nat.lt_of_not_le
+  intro hc
+  rw [dev_of_length_le hc] at hk
+  exact hk rfl
+
+/-- the group paths that lead out through a group output are paths of its group -/
+theorem mem_groupPaths {w : World} (hs : SC w) {g y : Nat} (hg : (w.dev g).kind = .gpath)
+    (ho : groupOut w g = y) : g ∈ groupPaths w y := by
+  have hgl : g < w.devs.length := kind_lt' (by rw [hg]; decide)
+  obtain ⟨_, h2, _⟩ := hs.groupOK hgl
+  obtain ⟨_, _, _, _, _, h6, h7⟩ := h2 hg
+  unfold groupPaths at h7 ⊢
+  rw [← ho, h6]
+  exact h7
+
+theorem CEdge.succ {w : World} (hs : SC w) {y z c : Nat} (h : CEdge w y z c) : z ∈ csucc w y := by
+  cases h with
+  | gate hk hz => unfold csucc; rw [hk]; exact hz
+  | ginput hk hz => unfold csucc; rw [hk]; exact hz
+  | gpath hk => unfold csucc; rw [hk]; exact List.mem_singleton.mpr rfl
+  | goutput g hk hg ho hz =>
+    unfold csucc; rw [hk]
+    exact List.mem_flatMap.mpr ⟨g, mem_groupPaths hs hg ho, hz⟩
+
+/-- the static bound on controller chains -/
+theorem CChain.bound {w : World} (hs : SC w) {l k y x : Nat} (h : CChain w l k y x) :
+    ∀ n b, costLe n w b y = true → l ≤ n ∧ k ≤ b := by
   induction h with
-  | here x => intro f _; exact Nat.zero_le _
-  | @step k y z x hk hz _ ih =>
-    intro f hf
-    cases f with
-    | zero => simp [gateDepthLe, hk] at hf
-    | succ f =>
-      simp only [gateDepthLe, hk, bne_self_eq_false, Bool.false_or, List.all_eq_true] at hf
-      exact Nat.succ_le_succ (ih f (hf z hz))
+  | here x => intro n b _; exact ⟨Nat.zero_le _, Nat.zero_le _⟩
+  | @step l k c y z x he _ ih =>
+    intro n b hc
+    obtain ⟨hctrl, hcost⟩ := he.isCtrl
+    cases n with
+    | zero => simp [costLe, hctrl] at hc
+    | succ n =>
+      simp only [costLe, hctrl, Bool.not_true, Bool.false_or, Bool.and_eq_true, decide_eq_true_eq,
+        List.all_eq_true] at hc
+      obtain ⟨h1, h2⟩ := ih n _ (hc.2 z (he.succ hs))
+      rw [← hcost] at hc h2
+      exact ⟨by omega, by omega⟩
 
-theorem GChain.toGReach {w : World} {k y x : Nat} (h : GChain w k y x) :
-    ∀ f, k ≤ f → gReach f w y x = true := by
+theorem CChain.toCReach {w : World} (hs : SC w) {l k y x : Nat} (h : CChain w l k y x) :
+    ∀ f, l ≤ f → cReach f w y x = true := by
   induction h with
-  | here x => intro f _; cases f <;> simp [gReach]
-  | @step k y z x hk hz _ ih =>
+  | here x => intro f _; cases f <;> simp [cReach]
+  | @step l k c y z x he _ ih =>
     intro f hf
     cases f with
     | zero => omega
     | succ f =>
-      simp only [gReach, hk, beq_self_eq_true, Bool.true_and, Bool.or_eq_true, List.any_eq_true]
-      exact Or.inr ⟨z, hz, ih f (by omega)⟩
+      simp only [cReach, he.isCtrl.1, Bool.true_and, Bool.or_eq_true, List.any_eq_true]
+      exact Or.inr ⟨z, he.succ hs, ih f (by omega)⟩
 
-/-- **Localisation**: if `y` accepts with mask `N'` but not with the larger mask `N ⊆ N' ∪ {x}`,
-then `x` is reached from `y` through gates, and `x` itself is willing. -/
-theorem wouldAcceptN_local {w : World} {N N' : List Nat} {x p : Nat}
-    (hN : ∀ z ∈ N, z ∈ N' ∨ z = x) :
-    ∀ f y, wouldAcceptN f w N' y p = true → wouldAcceptN f w N y p = false →
-      ∃ k, GChain w k y x ∧ w.canAcceptBasic x p = true := by
+/-- **Localisation**: if `y` accepts with the masks `N'`, `A'` but not with `N ⊆ N' ∪ {x}`,
+`A ⊇ A' \ {x}`, then `x` is reached from `y` through controllers, and `x` itself is willing (with
+the mask `A'`). -/
+theorem wouldAcceptS_local {w : World} {N N' A A' : List Nat} {x p : Nat}
+    (hN : ∀ z ∈ N, z ∈ N' ∨ z = x) (hA : ∀ z ∈ A', z ∈ A ∨ z = x) :
+    ∀ f y stk, wouldAcceptS f w N' A' y p stk = true → wouldAcceptS f w N A y p stk = false →
+      ∃ l k, CChain w l k y x ∧ (A'.contains x || accM w x p) = true := by
   intro f
   induction f with
-  | zero => intro y h; cases h
+  | zero => intro y stk h; cases h
   | succ f ih =>
-    intro y h h'
-    unfold wouldAcceptN at h h'
-    by_cases hy' : y ∈ N'
-    · simp [hy'] at h
-    · have e1 : N'.contains y = false := by simpa using hy'
-      rw [e1] at h
-      simp only [Bool.false_eq_true, if_false] at h
-      by_cases hy : y ∈ N
-      · have : y = x := (hN y hy).resolve_left hy'
-        subst this
-        refine ⟨0, .here _, ?_⟩
-        cases hkind : (w.dev y).kind <;> simp only [hkind] at h
-        case gate => simp only [Bool.and_eq_true] at h; exact h.1.2
-        all_goals first | exact h | cases h
-      · have e2 : N.contains y = false := by simpa using hy
-        rw [e2] at h'
-        simp only [Bool.false_eq_true, if_false] at h'
-        cases hkind : (w.dev y).kind <;> simp only [hkind] at h h'
-        case gate =>
-          simp only [Bool.and_eq_true, List.any_eq_true] at h
-          obtain ⟨⟨h1, h2⟩, z, hz, h3⟩ := h
-          rw [h1, h2, Bool.true_and, Bool.true_and] at h'
-          have h4 : wouldAcceptN f w N z p = false := by
-            cases hh : wouldAcceptN f w N z p with
-            | false => rfl
-            | true =>
-              have : (w.dev y).down.any (fun y => wouldAcceptN f w N y p) = true :=
-                List.any_eq_true.mpr ⟨z, hz, hh⟩
-              rw [this] at h'; cases h'
-          obtain ⟨k, hc, hx⟩ := ih z h3 h4
-          exact ⟨k + 1, .step hkind hz hc, hx⟩
-        all_goals first
-          | (rw [h] at h'; cases h')
-          | cases h
+    intro y stk h h'
+    unfold wouldAcceptS at h h'
+    by_cases hgo : (w.dev y).kind = .goutput
+    · simp only [hgo, bne_self_eq_false, Bool.and_false, Bool.false_eq_true, if_false] at h h'
+      cases hl : stk.getLast? with
+      | none => simp [hl] at h
+      | some g =>
+        simp only [hl, Bool.and_eq_true, List.any_eq_true, beq_iff_eq] at h
+        obtain ⟨⟨h1, h2⟩, z, hz, h3⟩ := h
+        simp only [hl, h1, h2, beq_self_eq_true, Bool.and_self, Bool.true_and] at h'
+        have h4 : wouldAcceptS f w N A z p stk.dropLast = false := by
+          cases hh : wouldAcceptS f w N A z p stk.dropLast with
+          | false => rfl
+          | true =>
+            have : (w.dev g).down.any (fun y => wouldAcceptS f w N A y p stk.dropLast) = true :=
+              List.any_eq_true.mpr ⟨z, hz, hh⟩
+            rw [this] at h'; cases h'
+        obtain ⟨l, k, hc, hx⟩ := ih z _ h3 h4
+        exact ⟨l + 1, 3 + k, .step (.goutput g hgo h1 h2 hz) hc, hx⟩
+    · have hne : ((w.dev y).kind != Kind.goutput) = true := by simpa using hgo
+      rw [hne, Bool.and_true] at h h'
+      by_cases hy' : y ∈ N'
+      · simp [hy'] at h
+      · have e1 : N'.contains y = false := by simpa using hy'
+        rw [e1] at h
+        simp only [Bool.false_eq_true, if_false] at h
+        -- the local answer of `y` with the mask `A'`
+        have hloc : (A'.contains y || accM w y p) = true := by
+          cases hkind : (w.dev y).kind <;> simp only [hkind] at h
+          case gate => simp only [Bool.and_eq_true] at h; exact h.1.2
+          case ginput => simp only [Bool.and_eq_true] at h; exact h.1
+          case gpath => simp only [Bool.and_eq_true] at h; exact h.1
+          case goutput => exact absurd hkind hgo
+          all_goals first | exact h | cases h
+        by_cases hy : y ∈ N
+        · have : y = x := (hN y hy).resolve_left hy'
+          subst this
+          exact ⟨0, 0, .here _, hloc⟩
+        · have e2 : N.contains y = false := by simpa using hy
+          rw [e2] at h'
+          simp only [Bool.false_eq_true, if_false] at h'
+          have key : (A.contains y || accM w y p) = false → y = x := by
+            intro ha'
+            have ha := hloc
+            rw [Bool.or_eq_false_iff] at ha'
+            rw [ha'.2, Bool.or_false] at ha
+            have hm : y ∈ A' := by simpa using ha
+            rcases hA y hm with h1 | h1
+            · have : A.contains y = true := by simpa using h1
+              rw [this] at ha'; cases ha'.1
+            · exact h1
+          cases ha : (A.contains y || accM w y p) with
+          | false =>
+            have := key ha
+            subst this
+            exact ⟨0, 0, .here _, hloc⟩
+          | true =>
+            cases hkind : (w.dev y).kind <;> simp only [hkind, ha] at h h'
+            case gate =>
+              simp only [Bool.and_eq_true, List.any_eq_true] at h
+              obtain ⟨⟨h1, _⟩, z, hz, h3⟩ := h
+              rw [h1, Bool.true_and, Bool.true_and] at h'
+              have h4 : wouldAcceptS f w N A z p stk = false := by
+                cases hh : wouldAcceptS f w N A z p stk with
+                | false => rfl
+                | true =>
+                  have : (w.dev y).down.any (fun y => wouldAcceptS f w N A y p stk) = true :=
+                    List.any_eq_true.mpr ⟨z, hz, hh⟩
+                  rw [this] at h'; cases h'
+              obtain ⟨l, k, hc, hx⟩ := ih z _ h3 h4
+              exact ⟨l + 1, 2 + k, .step (.gate hkind hz) hc, hx⟩
+            case ginput =>
+              simp only [Bool.and_eq_true, List.any_eq_true] at h
+              obtain ⟨_, z, hz, h3⟩ := h
+              rw [Bool.true_and] at h'
+              have h4 : wouldAcceptS f w N A z p stk = false := by
+                cases hh : wouldAcceptS f w N A z p stk with
+                | false => rfl
+                | true =>
+                  have : (w.dev y).down.any (fun y => wouldAcceptS f w N A y p stk) = true :=
+                    List.any_eq_true.mpr ⟨z, hz, hh⟩
+                  rw [this] at h'; cases h'
+              obtain ⟨l, k, hc, hx⟩ := ih z _ h3 h4
+              exact ⟨l + 1, 2 + k, .step (.ginput hkind hz) hc, hx⟩
+            case gpath =>
+              simp only [Bool.and_eq_true] at h
+              rw [Bool.true_and] at h'
+              obtain ⟨l, k, hc, hx⟩ := ih _ _ h.2 h'
+              exact ⟨l + 1, 1 + k, .step (.gpath hkind) hc, hx⟩
+            case goutput => exact absurd hkind hgo
+            all_goals first
+              | cases h'
+              | cases h
 
-/-- A gate chain from a downstream neighbour `y` of `d` to `x`, read backwards, is a route of the
-notification dispatch from `x` to `d`. -/
-theorem GChain.reach {w : World} (hs : S1 w) {x d : Nat} (hf : forwardsUp w x = true) {k y : Nat}
-    (h : GChain w k y x) :
-    ∀ (u m : Nat), y < w.devs.length → u ∈ (w.dev y).up → C03.Reach w false m u d →
-      C03.Reach w true (m + 1 + 2 * k) x d := by
+/-! ### the route of the notification back along a controller chain -/
+
+/-- `x` hands a notification on to its upstream neighbours, or to the paths of its group -/
+def NodeOK (w : World) (x : Nat) : Prop := forwardsUp w x = true ∨ (w.dev x).kind = .ginput
+
+theorem nodeOK_ctrl {w : World} {y z c : Nat} (h : CEdge w y z c) : NodeOK w y := by
+  unfold NodeOK forwardsUp
+  cases h with
+  | gate hk _ => left; rw [hk]
+  | ginput hk _ => right; exact hk
+  | gpath hk => left; rw [hk]
+  | goutput g hk _ _ _ => left; rw [hk]
+
+theorem forwards_of_up {w : World} (hs : SC w) {z u : Nat} (hz : z < w.devs.length)
+    (h : NodeOK w z) (hu : u ∈ (w.dev z).up) : forwardsUp w z = true := by
+  rcases h with h | h
+  · exact h
+  · have := (hs.groupOK hz).2.2 h
+    rw [this] at hu; cases hu
+
+/-- one edge back -/
+theorem CEdge.back {w : World} (hs : SC w) {y z c d n : Nat} (he : CEdge w y z c)
+    (hy : y < w.devs.length) (hz : NodeOK w z) (hr : C03.Reach w true n y d) :
+    z < w.devs.length ∧ C03.Reach w true (n + c) z d := by
+  cases he with
+  | gate hk hzd =>
+    obtain ⟨hzl, hyz⟩ := hs.down_sym hy hzd
+    exact ⟨hzl, .up (forwards_of_up hs hzl hz hyz) hyz (.fwd (Or.inl hk) hr)⟩
+  | ginput hk hzd =>
+    obtain ⟨hzl, hyz⟩ := hs.down_sym hy hzd
+    exact ⟨hzl, .up (forwards_of_up hs hzl hz hyz) hyz (.fwd (Or.inr (Or.inl hk)) hr)⟩
+  | gpath hk =>
+    obtain ⟨h1, h2, h3, _, _, _, h7⟩ := (hs.groupOK hy).2.1 hk
+    refine ⟨h1, .paths h2 ?_ hr⟩
+    unfold groupPaths at h7
+    rw [h3]; exact h7
+  | goutput g hk hg ho hzd =>
+    have hgl : g < w.devs.length := kind_lt' (by rw [hg]; decide)
+    obtain ⟨hzl, hgz⟩ := hs.down_sym hgl hzd
+    refine ⟨hzl, ?_⟩
+    have h1 : C03.Reach w false (n + 1) y d := .fwd (Or.inr (Or.inr hk)) hr
+    have h2 : C03.Reach w false (n + 1 + 1) g d := .gpath hg (by
+      show C03.Reach w false (n + 1) (groupOut w g) d
+      rw [ho]; exact h1)
+    exact .up (forwards_of_up hs hzl hz hgz) hgz h2
+
+/-- **The route back**: a notification that `y` hands on arrives (within `n` levels) at `d`; then a
+notification of `x` arrives at `d` within `n + k` levels. -/
+theorem CChain.reach {w : World} (hs : SC w) {d : Nat} {l k y x : Nat} (h : CChain w l k y x) :
+    ∀ n, y < w.devs.length → NodeOK w x → C03.Reach w true n y d → C03.Reach w true (n + k) x d := by
   induction h with
-  | here x => intro u m _ hu hr; exact .up hf hu hr
-  | @step k y z x hk hz _ ih =>
-    intro u m hy hu hr
-    obtain ⟨hz1, hz2⟩ := hs.down_sym hy hz
-    have h1 : C03.Reach w true (m + 1) y d := .up (forwardsUp_gate hk) hu hr
-    have h2 : C03.Reach w false (m + 2) y d := .fwd (Or.inl hk) h1
-    have := ih hf y (m + 2) hz1 hz2 h2
-    exact this.le (by omega)
+  | here x => intro n _ _ hr; exact hr
+  | @step l k c y z x he hrest ih =>
+    intro n hy hx hr
+    have hz : NodeOK w z := by
+      cases hrest with
+      | here _ => exact hx
+      | step he' _ => exact nodeOK_ctrl he'
+    obtain ⟨hzl, hr'⟩ := he.back hs hy hz hr
+    have := ih (n + c) hzl hx hr'
+    rw [Nat.add_assoc] at this
+    exact this
 
-/-! ### a hand-over never touches a device it cannot reach through gates -/
+/-! ### a hand-over never touches a device it cannot reach through controllers -/
 
-theorem same_dropHist (x : Nat) (w : World) (p : Nat) : Same x w (w.dropHist p) :=
+theorem same_dropHist (x : Nat) (w : World) (p : Nat) : SameD x w (w.dropHist p) :=
   ⟨by rw [dev_dropHist], by rw [dropHist_devs], by
     unfold World.now
     have : (w.dropHist p).noParts = w.noParts := dropHist_noParts w p
     have := congrArg (fun v : World => v.env.now) this
     exact this,
-    fun q => dropHist_part_kids .., fun z => by rw [dev_dropHist]⟩
+    fun z => by rw [dev_dropHist]⟩
 
-theorem gReach_self (f : Nat) (w : World) (x : Nat) : gReach f w x x = true := by
-  cases f <;> simp [gReach]
+theorem sameD_modPart (x : Nat) (w : World) (p : Nat) (g : PartRec → PartRec) :
+    SameD x w (w.modPart p g) := ⟨rfl, rfl, rfl, fun _ => rfl⟩
 
-/-- static facts a refusal preserves: kinds of S1, no source is anybody's downstream neighbour -/
-def HK (w : World) : Prop :=
-  ∀ z, kindOK (w.dev z).kind = true ∧ ∀ y ∈ (w.dev z).down, (w.dev y).kind ≠ .source
+theorem cReach_self (f : Nat) (w : World) (x : Nat) : cReach f w x x = true := by
+  cases f <;> simp [cReach]
 
-theorem S1.hk {w : World} (h : S1 w) : HK w := by
-  intro z
-  refine ⟨h.kindOK z, fun y hy hk => ?_⟩
-  by_cases hz : z < w.devs.length
-  · have := (h.down_sym hz hy).2
-    rw [h.source_up y hk] at this; cases this
-  · rw [dev_of_length_le (Nat.le_of_not_lt hz)] at hy; cases hy
+/-- static facts a refusal preserves: no source is anybody's downstream neighbour, the group records
+are consistent -/
+structure HK (w : World) : Prop where
+  src : ∀ z, ∀ y ∈ csucc w z, (w.dev y).kind ≠ .source
+  src' : ∀ z, ∀ y ∈ (w.dev z).down, (w.dev y).kind ≠ .source
+  paths : ∀ g y, (w.dev g).kind = .gpath → (w.dev y).kind = .goutput → g ∈ groupPaths w y
 
-theorem HK.of_refused {w w' : World} (h : HK w) (r : C08L.Refused w w') : HK w' := by
-  intro z
-  have e1 : (w'.dev z).kind = (w.dev z).kind := noWR_field Dev.kind (fun _ => rfl) (refused_dev r z)
-  have e2 : (w'.dev z).down = (w.dev z).down := noWR_field Dev.down (fun _ => rfl) (refused_dev r z)
-  rw [e1, e2]
-  refine ⟨(h z).1, fun y hy => ?_⟩
-  have e3 : (w'.dev y).kind = (w.dev y).kind := noWR_field Dev.kind (fun _ => rfl) (refused_dev r y)
-  rw [e3]; exact (h z).2 y hy
+theorem csucc_topo {w w' : World} (h : TopoEq w w') (z : Nat) : csucc w' z = csucc w z := by
+  unfold csucc groupPaths
+  rw [h.kind, h.down, h.groupIn, h.group, h.groups]
+  cases (w.dev z).kind <;> simp only []
+  congr 1
+  funext g
+  rw [h.down]
 
-theorem gReach_congr {w w' : World}
-    (hk : ∀ z, (w'.dev z).kind = (w.dev z).kind ∧ (w'.dev z).down = (w.dev z).down) :
-    ∀ f y x, gReach f w' y x = gReach f w y x := by
+theorem HK.of_topo {w w' : World} (h : HK w) (t : TopoEq w w') : HK w' := by
+  refine ⟨fun z y hy => ?_, fun z y hy => ?_, fun g y hg hy => ?_⟩
+  · rw [csucc_topo t] at hy; rw [t.kind]; exact h.src z y hy
+  · rw [t.down] at hy; rw [t.kind]; exact h.src' z y hy
+  · rw [t.kind] at hg hy
+    have := h.paths g y hg hy
+    unfold groupPaths at this ⊢
+    rw [t.group, t.groups]; exact this
+
+theorem HK.of_refused {w w' : World} (h : HK w) (r : C08L.Refused w w') : HK w' :=
+  h.of_topo (topoEq_refused r)
+
+theorem cReach_topo {w w' : World} (t : TopoEq w w') :
+    ∀ f y x, cReach f w' y x = cReach f w y x := by
   intro f
   induction f with
   | zero => intro y x; rfl
-  | succ f ih => intro y x; simp only [gReach, (hk y).1, (hk y).2, ih]
+  | succ f ih => intro y x; simp only [cReach, t.kind, csucc_topo t, ih]
 
-theorem gReach_refused {w w' : World} (r : C08L.Refused w w') (f y x : Nat) :
-    gReach f w' y x = gReach f w y x :=
-  gReach_congr (fun z => ⟨noWR_field Dev.kind (fun _ => rfl) (refused_dev r z),
-    noWR_field Dev.down (fun _ => rfl) (refused_dev r z)⟩) f y x
+theorem cReach_refused {w w' : World} (r : C08L.Refused w w') (f y x : Nat) :
+    cReach f w' y x = cReach f w y x := cReach_topo (topoEq_refused r) f y x
 
-theorem same_tryList_gates (x f p : Nat)
-    (ih : ∀ (w : World) (y : Nat), HK w → (w.dev y).kind ≠ .source → gReach f w y x = false →
-      Same x w (give f w y p).1) :
-    ∀ (l : List Nat) (w : World), HK w →
-      (∀ y ∈ l, (w.dev y).kind ≠ .source ∧ gReach f w y x = false) →
-      Same x w (tryList (give f) w l p).1 := by
+theorem SC.hk {w : World} (h : SC w) : HK w := by
+  have hsrc : ∀ z, ∀ y ∈ (w.dev z).down, (w.dev y).kind ≠ .source := by
+    intro z y hy hk
+    by_cases hz : z < w.devs.length
+    · have := (h.down_sym hz hy).2
+      rw [h.source_up y hk] at this; cases this
+    · rw [dev_of_length_le (Nat.le_of_not_lt hz)] at hy; cases hy
+  refine ⟨fun z y hy hk => ?_, hsrc, fun g y hg hy => ?_⟩
+  · unfold csucc at hy
+    cases hkz : (w.dev z).kind <;> simp only [hkz] at hy
+    case gate => exact hsrc z y hy hk
+    case ginput => exact hsrc z y hy hk
+    case gpath =>
+      rw [List.mem_singleton] at hy
+      have hzl : z < w.devs.length := kind_lt' (by rw [hkz]; decide)
+      have := ((h.groupOK hzl).2.1 hkz).2.1
+      rw [← hy, hk] at this; cases this
+    case goutput =>
+      obtain ⟨g, _, hyg⟩ := List.mem_flatMap.mp hy
+      exact hsrc g y hyg hk
+    all_goals cases hy
+  · have hgl : g < w.devs.length := kind_lt' (by rw [hg]; decide)
+    have hyl : y < w.devs.length := kind_lt' (by rw [hy]; decide)
+    exact mem_groupPaths h hg ((h.groupOK hgl).1 hg y (by simpa using hyl) hy)
+
+theorem stkOK_refused {w w' : World} (h : StkOK w) (r : C08L.Refused w w') : StkOK w' :=
+  h.map (topoEq_refused r).kind (fun h2 q g hg => by rw [part_congr r.1] at hg; exact h2 q g hg)
+
+theorem stkOK_modPart {w : World} (h : StkOK w) (p : Nat) (g : PartRec → PartRec)
+    (hg : (∀ x ∈ (w.part p).stack, (w.dev x).kind = .gpath) →
+      ∀ x ∈ (g (w.part p)).stack, (w.dev x).kind = .gpath) :
+    StkOK (w.modPart p g) :=
+  h.map (fun _ => rfl) (fun h2 q x hx => by
+    rw [part_modPart] at hx
+    split at hx
+    · exact hg (h2 p) x hx
+    · exact h2 q x hx)
+
+theorem stkOK_addHist {w : World} (h : StkOK w) (p d : Nat) : StkOK (w.addHist p d) :=
+  h.map (fun _ => by rw [dev_addHist]) (fun h2 q x hx => by
+    rw [addHist_part_stack] at hx
+    exact h2 q x hx)
+
+theorem same_tryList_ctrl (x f p : Nat)
+    (ih : ∀ (w : World) (y : Nat), HK w → StkOK w → (w.dev y).kind ≠ .source →
+      cReach f w y x = false → SameD x w (give f w y p).1) :
+    ∀ (l : List Nat) (w : World), HK w → StkOK w →
+      (∀ y ∈ l, (w.dev y).kind ≠ .source ∧ cReach f w y x = false) →
+      SameD x w (tryList (give f) w l p).1 := by
   intro l
   induction l with
-  | nil => intro w _ _; exact .refl x w
+  | nil => intro w _ _ _; exact .refl x w
   | cons y ys ihl =>
-    intro w hw hl
+    intro w hw hs hl
     rw [tryList]
-    have h1 := ih w y hw (hl y (List.mem_cons_self ..)).1 (hl y (List.mem_cons_self ..)).2
+    have h1 := ih w y hw hs (hl y (List.mem_cons_self ..)).1 (hl y (List.mem_cons_self ..)).2
     rcases hg : give f w y p with ⟨w1, b⟩
     rw [hg] at h1
     cases b
     · dsimp only
       have r := C08L.give_refused f w y p w1 hg
-      refine h1.trans (ihl w1 (hw.of_refused r) (fun z hz => ?_))
+      refine h1.trans (ihl w1 (hw.of_refused r) (stkOK_refused hs r) (fun z hz => ?_))
       have := hl z (List.mem_cons_of_mem _ hz)
-      rw [gReach_refused r, h1.kind z]
+      rw [cReach_refused r, h1.kind z]
       exact this
     · exact h1
 
-theorem same_give_gates (x : Nat) (f : Nat) : ∀ (w : World) (y p : Nat), HK w →
-    (w.dev y).kind ≠ .source → gReach f w y x = false → Same x w (give f w y p).1 := by
+theorem same_give_ctrl (x : Nat) (f : Nat) : ∀ (w : World) (y p : Nat), HK w → StkOK w →
+    (w.dev y).kind ≠ .source → cReach f w y x = false → SameD x w (give f w y p).1 := by
   induction f with
-  | zero => intro w y p _ _ _; rw [give]; exact same_setErr x w _
+  | zero => intro w y p _ _ _ _; rw [give]; exact .of_same (same_setErr x w _)
   | succ f ih =>
-    intro w y p hw hsrc hr
-    simp only [gReach, Bool.or_eq_false_iff, beq_eq_false_iff_ne, ne_eq] at hr
+    intro w y p hw hst hsrc hr
+    simp only [cReach, Bool.or_eq_false_iff, beq_eq_false_iff_ne, ne_eq] at hr
     obtain ⟨hyx, hr2⟩ := hr
-    by_cases hg : (w.dev y).kind = .gate
-    · have hdown : ∀ z ∈ (w.dev y).down, gReach f w z x = false := by
-        intro z hz
-        simp only [hg, beq_self_eq_true, Bool.true_and] at hr2
-        cases hh : gReach f w z x with
-        | false => rfl
-        | true =>
-          have : (w.dev y).down.any (fun z => gReach f w z x) = true :=
-            List.any_eq_true.mpr ⟨z, hz, hh⟩
-          rw [this] at hr2; cases hr2
+    have hsucc : isCtrl (w.dev y).kind = true → ∀ z ∈ csucc w y, cReach f w z x = false := by
+      intro hc z hz
+      rw [hc, Bool.true_and] at hr2
+      cases hh : cReach f w z x with
+      | false => rfl
+      | true =>
+        have : (csucc w y).any (fun z => cReach f w z x) = true := List.any_eq_true.mpr ⟨z, hz, hh⟩
+        rw [this] at hr2; cases hr2
+    have hT := same_tryList_ctrl x f p (fun w y => ih w y p)
+    cases hk : (w.dev y).kind
+    case source => exact absurd hk hsrc
+    case gate =>
+      have hs1 := hsucc (by rw [hk]; rfl)
+      have hcs : csucc w y = (w.dev y).down := by unfold csucc; rw [hk]
       rw [give]
-      simp only [hg]
+      simp only [hk]
       split
       · exact .refl x w
       · split
         · exact .refl x w
-        · have hw1 : HK (w.addHist p y) := fun z => by
-            simp only [dev_addHist]; exact hw z
+        · have hte : TopoEq w (w.addHist p y) :=
+            .of_devs (addHist_devs w p y) (groups_noParts (addHist_noParts w p y))
           have hl : ∀ z ∈ (w.addHist p y).sortedDown y,
-              ((w.addHist p y).dev z).kind ≠ .source ∧ gReach f (w.addHist p y) z x = false := by
+              ((w.addHist p y).dev z).kind ≠ .source ∧ cReach f (w.addHist p y) z x = false := by
             intro z hz
             have hz' : z ∈ (w.dev y).down := by
               have := (C08.sortedDown_mem (w.addHist p y) y z).mp hz
               rwa [dev_addHist] at this
-            rw [dev_addHist, gReach_congr (w := w) (fun z => by rw [dev_addHist]; exact ⟨rfl, rfl⟩)]
-            exact ⟨(hw y).2 z hz', hdown z hz'⟩
-          have hT := same_tryList_gates x f p (fun w y => ih w y p) _ (w.addHist p y) hw1 hl
-          have h0 : Same x w (w.addHist p y) := same_addHist x w p y
-          generalize tryList (give f) (w.addHist p y) ((w.addHist p y).sortedDown y) p = r at hT
+            rw [dev_addHist, cReach_topo hte]
+            exact ⟨hw.src' y z hz', hs1 z (by rw [hcs]; exact hz')⟩
+          have h1 := hT _ (w.addHist p y) (hw.of_topo hte) (stkOK_addHist hst p y) hl
+          have h0 : SameD x w (w.addHist p y) := .of_same (same_addHist x w p y)
+          generalize tryList (give f) (w.addHist p y) ((w.addHist p y).sortedDown y) p = r at h1
           obtain ⟨w1, b⟩ := r
           cases b
-          · exact (h0.trans hT).trans (same_dropHist x w1 p)
-          · exact h0.trans hT
-    · have hpk : plainKind (w.dev y).kind := by
-        have := (hw y).1
-        unfold plainKind
-        cases hk : (w.dev y).kind <;> simp_all [kindOK]
-      exact same_give f w p (fun h => hyx h) hpk
+          · exact (h0.trans h1).trans (same_dropHist x w1 p)
+          · exact h0.trans h1
+    case ginput =>
+      have hs1 := hsucc (by rw [hk]; rfl)
+      have hcs : csucc w y = (w.dev y).down := by unfold csucc; rw [hk]
+      rw [give]
+      simp only [hk]
+      split
+      · exact .refl x w
+      · refine hT _ w hw hst (fun z hz => ?_)
+        have hz' := (C08.sortedDown_mem w y z).mp hz
+        exact ⟨hw.src' y z hz', hs1 z (by rw [hcs]; exact hz')⟩
+    case gpath =>
+      have hs1 := hsucc (by rw [hk]; rfl)
+      have hcs : csucc w y = [groupIn w y] := by unfold csucc; rw [hk]
+      rw [give]
+      simp only [hk]
+      split
+      · exact .refl x w
+      · have hte : TopoEq w ((w.modPart p (fun r => { r with stack := r.stack ++ [y] })).addHist p y) :=
+          .of_devs (by rw [addHist_devs]; rfl) (by rw [groups_noParts (addHist_noParts _ p y)]; rfl)
+        have hst2 : StkOK ((w.modPart p (fun r => { r with stack := r.stack ++ [y] })).addHist p y) := by
+          apply stkOK_addHist
+          apply stkOK_modPart hst
+          intro hr z hz
+          rcases List.mem_append.mp hz with hz | hz
+          · exact hr z hz
+          · rw [List.mem_singleton] at hz; rw [hz]; exact hk
+        have hgi : (((w.modPart p (fun r => { r with stack := r.stack ++ [y] })).addHist p y).groups.getD
+            (w.dev y).group default).input = groupIn w y := by
+          rw [groups_noParts (addHist_noParts _ p y)]; rfl
+        rw [hgi]
+        have h1 := ih _ (groupIn w y) p (hw.of_topo hte) hst2
+          (by rw [hte.kind]; exact hw.src y _ (by rw [hcs]; exact List.mem_singleton.mpr rfl))
+          (by rw [cReach_topo hte]; exact hs1 _ (by rw [hcs]; exact List.mem_singleton.mpr rfl))
+        have h0 : SameD x w ((w.modPart p (fun r => { r with stack := r.stack ++ [y] })).addHist p y) :=
+          (sameD_modPart x w p _).trans (.of_same (same_addHist x _ p y))
+        generalize give f ((w.modPart p (fun r => { r with stack := r.stack ++ [y] })).addHist p y)
+          (groupIn w y) p = r at h1
+        obtain ⟨w1, b⟩ := r
+        cases b
+        · exact ((h0.trans h1).trans (sameD_modPart x w1 p _)).trans (same_dropHist x _ p)
+        · exact h0.trans h1
+    case goutput =>
+      have hs1 := hsucc (by rw [hk]; rfl)
+      rw [give]
+      simp only [hk]
+      cases hl : (w.part p).stack.getLast? with
+      | none => exact .of_same (same_setErr x w _)
+      | some g =>
+        simp only []
+        have hg : (w.dev g).kind = .gpath := hst.top hk p g (List.mem_of_getLast? hl)
+        have hgp := hw.paths g y hg hk
+        have hte : TopoEq w (w.modPart p (fun r => { r with stack := r.stack.dropLast })) :=
+          .of_devs rfl rfl
+        have hst1 : StkOK (w.modPart p (fun r => { r with stack := r.stack.dropLast })) := by
+          apply stkOK_modPart hst
+          intro hr z hz
+          exact hr z (List.dropLast_subset _ hz)
+        have hlist : ∀ z ∈ (w.modPart p (fun r => { r with stack := r.stack.dropLast })).sortedDown g,
+            ((w.modPart p (fun r => { r with stack := r.stack.dropLast })).dev z).kind ≠ .source ∧
+            cReach f (w.modPart p (fun r => { r with stack := r.stack.dropLast })) z x = false := by
+          intro z hz
+          have hz' : z ∈ (w.dev g).down := by
+            have := (C08.sortedDown_mem _ g z).mp hz
+            rwa [dev_modPart] at this
+          rw [dev_modPart, cReach_topo hte]
+          refine ⟨hw.src' g z hz', hs1 z ?_⟩
+          unfold csucc; rw [hk]
+          exact List.mem_flatMap.mpr ⟨g, hgp, hz'⟩
+        have h1 := hT _ _ (hw.of_topo hte) hst1 hlist
+        have h0 : SameD x w (w.modPart p (fun r => { r with stack := r.stack.dropLast })) :=
+          sameD_modPart x w p _
+        generalize tryList (give f) (w.modPart p (fun r => { r with stack := r.stack.dropLast }))
+          ((w.modPart p (fun r => { r with stack := r.stack.dropLast })).sortedDown g) p = r at h1
+        obtain ⟨w1, b⟩ := r
+        cases b
+        · exact (h0.trans h1).trans (sameD_modPart x w1 p (fun r => { r with stack := r.stack ++ [g] }))
+        · exact h0.trans h1
+    all_goals
+      (have hpk : plainKind (w.dev y).kind ∨ (w.dev y).kind = .batcher := by
+         unfold plainKind; rw [hk]; simp
+       exact sameD_give f w p (fun h => hyx h) hpk)
 
 end C03W
 end SimProc
